@@ -1,442 +1,1873 @@
-"""C04 - HTTP data transforms follow the wire format and are invertible (structural part)."""
+"""C04 - HTTP data transforms follow the wire format and are invertible (structural part).
+
+The two sibling dispatchers HttpDataTransform.transform / .recover are not matched syntactically.  Each loop body is
+*executed symbolically* once per step name the binary parsers can emit (the loop's step variable bound to the literal
+name, the step argument and every loop-carried local bound to symbols): branch tests are decided by constant folding,
+by the facts collected on the path and by a small type inference; undecidable tests (``isinstance(arg, int)``, asserts,
+conditional expressions) fork the path.  The result - per step a handful of paths, each with the final symbolic value of
+every loop-carried local - is what the rules look at.  It is independent of branch order, elif-vs-guard-clause layout,
+merged branches, temporaries and (engine-inlined) helpers.
+"""
 
 from __future__ import annotations
 
 import ast
+import copy
 from typing import Dict, List, Optional, Tuple
 
-from csverif import absint, tables
-from csverif.astutil import (
-    assignments_to, body_walk, compare_parts, const_eval, disjuncts, dotted, fn_calls, is_const, kwarg, names_in,
-    NotConst, params, src, statements,
-)
-from csverif.q import FuncView, guarded_by, origin, raise_class
+from csverif import tables
+from csverif.absint import sympoly
+from csverif.astutil import bind_args, const_eval, dotted, names_in, NotConst, param_defaults, params, src, strip_cast
 
 
 def _c(node):
     try:
-        return const_eval(node) if node is not None else None
-    except NotConst:
+        return const_eval(node, _noenv) if node is not None else None
+    except (NotConst, Exception):
         return None
 
 
-def dispatch(fn: ast.AST, loop: ast.For, var: str) -> Tuple[Dict[str, Tuple[ast.If, List[ast.stmt]]], Optional[List[ast.stmt]]]:
-    """Map each literal the if/elif chain on `var` tests to (if node, branch body); + else body."""
-    table: Dict[str, Tuple[ast.If, List[ast.stmt]]] = {}
-    else_body = None
-    chain = [s for s in loop.body if isinstance(s, ast.If) and _lits(s.test, var)]
-    if not chain:
-        return table, None
-    node = chain[0]
-    while True:
-        lits = _lits(node.test, var)
-        for l in lits or []:
-            table.setdefault(l, (node, node.body))
-        if len(node.orelse) == 1 and isinstance(node.orelse[0], ast.If) and _lits(node.orelse[0].test, var) is not None:
-            node = node.orelse[0]
-            continue
-        else_body = node.orelse
-        break
-    return table, else_body
+def _noenv(name):
+    raise KeyError(name)
 
 
-def _lits(test: ast.AST, var: str) -> Optional[List[str]]:
-    out = []
-    for d in disjuncts(test):
-        ok = False
-        for l, op, r in compare_parts(d):
-            if isinstance(op, ast.Eq) and dotted(l) == var and isinstance(_c(r), str):
-                out.append(_c(r))
-                ok = True
-            elif isinstance(op, ast.Eq) and dotted(r) == var and isinstance(_c(l), str):
-                out.append(_c(l))
-                ok = True
-            elif isinstance(op, ast.In) and dotted(l) == var and isinstance(r, (ast.Tuple, ast.List, ast.Set)):
-                vals = [_c(e) for e in r.elts]
-                if all(isinstance(v, str) for v in vals):
-                    out.extend(vals)
-                    ok = True
-        if not ok:
+# ============================================================================================ symbolic execution core
+_STEP, _ARG = "%step", "%arg"
+_MUTATORS = {"update", "setdefault", "pop", "popitem", "append", "insert", "extend", "clear", "remove", "add", "discard", "reverse", "sort",
+             "__setitem__", "__delitem__"}
+_IMPURE = ("random.", "os.urandom", "secrets.", "time.", "uuid.")
+_ALLOC = {"list", "tuple", "reversed", "sorted", "dict", "bytearray", "copy.copy", "copy.deepcopy", "deque", "collections.deque"}
+_DISJOINT = {"int", "bytes", "str", "bytearray", "list", "dict", "tuple", "NoneType", "float", "set", "bool"}
+_CMP = {
+    ast.Eq: lambda a, b: a == b, ast.NotEq: lambda a, b: a != b, ast.Lt: lambda a, b: a < b, ast.LtE: lambda a, b: a <= b,
+    ast.Gt: lambda a, b: a > b, ast.GtE: lambda a, b: a >= b, ast.In: lambda a, b: a in b, ast.NotIn: lambda a, b: a not in b,
+    ast.Is: lambda a, b: a is b, ast.IsNot: lambda a, b: a is not b,
+}
+_NEG = {ast.NotEq: ast.Eq, ast.IsNot: ast.Is, ast.NotIn: ast.In}
+
+
+def _name(n: str) -> ast.Name:
+    return ast.Name(id=n, ctx=ast.Load())
+
+
+def _const_node(v) -> Optional[ast.AST]:
+    if v is None or isinstance(v, (bool, int, str, bytes, float)):
+        return ast.Constant(value=v)
+    if isinstance(v, tuple):
+        el = [_const_node(x) for x in v]
+        return None if any(e is None for e in el) else ast.Tuple(elts=el, ctx=ast.Load())
+    return None
+
+
+def _key(e: ast.AST) -> Tuple[str, bool]:
+    """Canonical (text, polarity) of an atomic test: negations, != / is not / not in, mirrored operands and >, >=, <= are
+    all reduced to one spelling so that a fact recorded under one form answers the others."""
+    pol = True
+    while isinstance(e, ast.UnaryOp) and isinstance(e.op, ast.Not):
+        e, pol = e.operand, not pol
+    if isinstance(e, ast.Compare) and len(e.ops) == 1:
+        l, op, r = e.left, e.ops[0], e.comparators[0]
+        if type(op) in _NEG:
+            op, pol = _NEG[type(op)](), not pol
+        if isinstance(op, (ast.Gt, ast.GtE)):
+            l, r, op = r, l, (ast.Lt() if isinstance(op, ast.Gt) else ast.LtE())
+        if isinstance(op, ast.LtE):
+            l, r, op, pol = r, l, ast.Lt(), not pol
+        if isinstance(op, (ast.Eq, ast.Is)) and src(l) > src(r):
+            l, r = r, l
+        return f"{src(l)} {type(op).__name__} {src(r)}", pol
+    return src(e), pol
+
+
+def _tnames(t: ast.AST) -> Optional[set]:
+    if isinstance(t, ast.Tuple):
+        out = set()
+        for e in t.elts:
+            s = _tnames(e)
+            if s is None:
+                return None
+            out |= s
+        return out
+    d = dotted(t)
+    return {d} if d else None
+
+
+class _Path:
+    def __init__(self):
+        self.env: Dict[str, ast.AST] = {}
+        self.facts: Dict[str, bool] = {}
+        self.fnodes: List[Tuple[ast.AST, bool]] = []
+        self.effects: List[ast.AST] = []
+        self.muts: List[Tuple[ast.AST, str, List[ast.AST]]] = []
+        self.defs: Dict[str, ast.AST] = {}
+        self.out = "next"
+        self.val: Optional[ast.AST] = None
+        self.opaque: List[str] = []
+
+    def copy(self) -> "_Path":
+        p = _Path()
+        p.env, p.facts, p.fnodes = dict(self.env), dict(self.facts), list(self.fnodes)
+        p.effects, p.muts, p.defs = list(self.effects), list(self.muts), dict(self.defs)
+        p.out, p.val, p.opaque = self.out, self.val, list(self.opaque)
+        return p
+
+    def add_fact(self, e: ast.AST, truth: bool):
+        k, pol = _key(e)
+        self.facts[k] = truth if pol else (not truth)
+        self.fnodes.append((e, truth))
+
+    def fact(self, e: ast.AST) -> Optional[bool]:
+        k, pol = _key(e)
+        if k in self.facts:
+            return self.facts[k] if pol else (not self.facts[k])
+        return None
+
+
+class _Subst(ast.NodeTransformer):
+    def __init__(self, env):
+        self.env = env
+        self.shadow: set = set()
+
+    def visit_Name(self, n):
+        if isinstance(n.ctx, ast.Load) and n.id in self.env and n.id not in self.shadow:
+            return copy.deepcopy(self.env[n.id])
+        return n
+
+    def visit_Attribute(self, n):
+        d = dotted(n)
+        if d is not None and isinstance(n.ctx, ast.Load) and d in self.env and d.split(".")[0] not in self.shadow:
+            return copy.deepcopy(self.env[d])
+        return self.generic_visit(n)
+
+    def _comp(self, n):
+        bound = set()
+        for g in n.generators:
+            bound |= names_in(g.target)
+        old = self.shadow
+        self.shadow = old | bound
+        try:
+            return self.generic_visit(n)
+        finally:
+            self.shadow = old
+
+    visit_ListComp = visit_SetComp = visit_DictComp = visit_GeneratorExp = _comp
+
+    def visit_Lambda(self, n):
+        return n
+
+
+class _Sym:
+    """Path-forking symbolic executor over a function's statements (no loops: nested loops make a path `opaque`)."""
+
+    def __init__(self, ctx, f, objects: bool = False, budget: int = 96):
+        self.ctx, self.f, self.objects, self.budget = ctx, f, objects, budget
+        self.fresh = 0
+
+    # ------------------------------------------------------------------ types and truth
+    def types(self, e: ast.AST, p: _Path) -> Optional[set]:
+        if isinstance(e, ast.Constant):
+            return {type(e.value).__name__}
+        if isinstance(e, ast.JoinedStr):
+            return {"str"}
+        if isinstance(e, (ast.Tuple, ast.List, ast.Dict, ast.Set)):
+            return {type(e).__name__.lower()}
+        if isinstance(e, ast.BinOp):
+            a, b = self.types(e.left, p), self.types(e.right, p)
+            for t in ("bytes", "str", "list", "tuple"):
+                if (a == {t} or b == {t}) and isinstance(e.op, (ast.Add, ast.Mult)):
+                    return {t}
+            if a == {"int"} and b == {"int"} and not isinstance(e.op, ast.Div):
+                return {"int"}
             return None
-    return out
+        if isinstance(e, ast.IfExp):
+            a, b = self.types(e.body, p), self.types(e.orelse, p)
+            return None if a is None or b is None else a | b
+        if isinstance(e, ast.BoolOp):
+            ts = [self.types(v, p) for v in e.values]
+            return None if any(t is None for t in ts) else set().union(*ts)
+        if isinstance(e, ast.Compare) or (isinstance(e, ast.UnaryOp) and isinstance(e.op, ast.Not)):
+            return {"bool"}
+        if isinstance(e, ast.Subscript) and isinstance(e.slice, ast.Slice):
+            return self.types(e.value, p)
+        if isinstance(e, ast.Call):
+            d = dotted(e.func)
+            if d in ("len", "int", "ord", "sum"):
+                return {"int"}
+            if d in ("bytes", "str", "bytearray", "list", "dict", "tuple", "bool"):
+                return {d}
+            if d in ("isinstance", "callable", "hasattr"):
+                return {"bool"}
+            if isinstance(e.func, ast.Attribute):
+                if e.func.attr in ("lower", "upper", "strip", "lstrip", "rstrip", "casefold", "replace"):
+                    return self.types(e.func.value, p)
+                if e.func.attr == "encode":
+                    return {"bytes"}
+                if e.func.attr in ("decode", "hex"):
+                    return {"str"}
+                if e.func.attr in ("partition", "rpartition"):
+                    return {"tuple"}
+        k = src(e)
+        out = None
+        for fe, pol in p.fnodes:
+            if pol and isinstance(fe, ast.Call) and dotted(fe.func) == "isinstance" and len(fe.args) == 2 and src(fe.args[0]) == k:
+                tn = _tnames(fe.args[1])
+                if tn is not None:
+                    out = tn if out is None else (out & tn or out)
+        return out
+
+    def _isinstance(self, call: ast.Call, p: _Path) -> Optional[bool]:
+        if len(call.args) != 2:
+            return None
+        tn, tx = _tnames(call.args[1]), self.types(call.args[0], p)
+        if tn is None or not tx:
+            return None
+        if all(t in tn or (t == "bool" and "int" in tn) for t in tx):
+            return True
+        if all(t in _DISJOINT and u in _DISJOINT and t != u and not (t == "bool" and u == "int") for t in tx for u in tn):
+            return False
+        return None
+
+    def truth(self, e: ast.AST, p: _Path) -> Optional[bool]:
+        if isinstance(e, ast.Constant):
+            return bool(e.value)
+        if isinstance(e, (ast.Tuple, ast.List, ast.Set)) and not any(isinstance(x, ast.Starred) for x in e.elts):
+            return bool(e.elts)
+        if isinstance(e, ast.UnaryOp) and isinstance(e.op, ast.Not):
+            v = self.truth(e.operand, p)
+            return None if v is None else (not v)
+        if isinstance(e, ast.BoolOp):
+            vals = [self.truth(v, p) for v in e.values]
+            if isinstance(e.op, ast.And):
+                return False if any(v is False for v in vals) else True if all(v is True for v in vals) else None
+            return True if any(v is True for v in vals) else False if all(v is False for v in vals) else None
+        f = p.fact(e)
+        if f is not None:
+            return f
+        if isinstance(e, ast.Compare) and len(e.ops) == 1:
+            l, op, r = e.left, e.ops[0], e.comparators[0]
+            a, b = _cv(l), _cv(r)
+            if a is not _NC and b is not _NC:
+                try:
+                    return bool(_CMP[type(op)](a, b))
+                except Exception:
+                    return None
+            if isinstance(op, (ast.Is, ast.IsNot)) and b is None:
+                t = self.types(l, p)
+                if t:
+                    if t == {"NoneType"}:
+                        return isinstance(op, ast.Is)
+                    if "NoneType" not in t:
+                        return isinstance(op, ast.IsNot)
+        if isinstance(e, ast.Call) and dotted(e.func) == "isinstance":
+            return self._isinstance(e, p)
+        return None
+
+    # ------------------------------------------------------------------ simplification
+    def simplify(self, e: ast.AST, p: _Path) -> ast.AST:
+        ex = self
+
+        class S(ast.NodeTransformer):
+            def visit_Lambda(self, n):
+                return n
+
+            def generic_visit(self, n):
+                n = super().generic_visit(n)
+                return ex._fold(n, p)
+
+            def visit_IfExp(self, n):
+                n.test = self.visit(n.test)
+                t = ex.truth(n.test, p)
+                if t is True:
+                    return self.visit(n.body)
+                if t is False:
+                    return self.visit(n.orelse)
+                n.body, n.orelse = self.visit(n.body), self.visit(n.orelse)
+                return n
+
+        return S().visit(e)
+
+    def _fold(self, n: ast.AST, p: _Path) -> ast.AST:
+        if isinstance(n, (ast.BinOp, ast.UnaryOp)) and not (isinstance(n, ast.UnaryOp) and isinstance(n.op, ast.Not)):
+            v = _cv(n)
+            if v is not _NC:
+                c = _const_node(v)
+                if c is not None:
+                    return c
+        if isinstance(n, ast.Subscript) and isinstance(n.value, (ast.Tuple, ast.List)) and not any(isinstance(x, ast.Starred) for x in n.value.elts):
+            i = _cv(n.slice)
+            if isinstance(i, int) and not isinstance(i, bool) and -len(n.value.elts) <= i < len(n.value.elts):
+                return n.value.elts[i]
+        if isinstance(n, ast.Subscript) and isinstance(n.value, ast.Dict) and all(k is not None and _cv(k) is not _NC for k in n.value.keys):
+            i = _cv(n.slice)
+            if i is not _NC:
+                hit = [v for k, v in zip(n.value.keys, n.value.values) if _cv(k) == i and type(_cv(k)) is type(i)]
+                if hit:
+                    return hit[-1]
+        if isinstance(n, ast.Subscript) and isinstance(n.value, ast.Constant) and isinstance(n.value.value, (bytes, str)):
+            try:
+                c = _const_node(const_eval(n, _noenv))
+                if c is not None:
+                    return c
+            except Exception:
+                pass
+        if isinstance(n, ast.Call):
+            d = dotted(n.func)
+            if isinstance(n.func, ast.Attribute) and isinstance(n.func.value, ast.Constant) and isinstance(n.func.value.value, (str, bytes)) \
+                    and n.func.attr in ("lower", "upper", "casefold", "strip") and not n.args and not n.keywords:
+                try:
+                    return ast.Constant(value=getattr(n.func.value.value, n.func.attr)())
+                except Exception:
+                    return n
+            if d == "len" and len(n.args) == 1:
+                v = _cv(n.args[0])
+                if v is not _NC:
+                    try:
+                        return ast.Constant(value=len(v))
+                    except Exception:
+                        return n
+            if d == "getattr" and len(n.args) == 2 and isinstance(_cv(n.args[1]), str) and _cv(n.args[1]).isidentifier():
+                return ast.Attribute(value=n.args[0], attr=_cv(n.args[1]), ctx=ast.Load())
+            if d == "isinstance":
+                t = self._isinstance(n, p)
+                if t is not None:
+                    return ast.Constant(value=t)
+        if isinstance(n, ast.Compare) or (isinstance(n, ast.UnaryOp) and isinstance(n.op, ast.Not)):
+            t = self.truth(n, p)
+            if t is not None:
+                return ast.Constant(value=t)
+        if isinstance(n, ast.BoolOp):
+            vals = list(n.values)
+            keep = []
+            for i, v in enumerate(vals):
+                t = self.truth(v, p)
+                last = i == len(vals) - 1
+                if isinstance(n.op, ast.Or):
+                    if t is True:
+                        keep.append(v)
+                        break
+                    if t is False and not last:
+                        continue
+                else:
+                    if t is False:
+                        keep.append(v)
+                        break
+                    if t is True and not last:
+                        continue
+                keep.append(v)
+            if len(keep) == 1:
+                return keep[0]
+            n.values = keep
+        return n
+
+    # ------------------------------------------------------------------ expressions
+    def ev(self, e: Optional[ast.AST], p: _Path) -> List[Tuple[_Path, Optional[ast.AST]]]:
+        """Substitute, simplify and resolve conditional expressions (forking on undecidable tests)."""
+        if e is None:
+            return [(p, None)]
+        e = copy.deepcopy(e)
+        if any(isinstance(n, ast.NamedExpr) for n in ast.walk(e)):
+            e = self._walrus(e, p)
+        v = _Subst(p.env).visit(e)
+        return self._resolve(self._freshen(v, p), p, 0)
+
+    def _walrus(self, e: ast.AST, p: _Path) -> ast.AST:
+        """`(n := E)` binds n (innermost first) and reads as n; evaluation-order subtleties of short circuits are ignored."""
+        ex = self
+
+        class W(ast.NodeTransformer):
+            def visit_Lambda(self, n):
+                return n
+
+            def visit_NamedExpr(self, n):
+                val = self.visit(n.value)
+                v = ex.simplify(ex._freshen(_Subst(p.env).visit(copy.deepcopy(val)), p), p)
+                ex._store(n.target, v, p)
+                return ast.Name(id=n.target.id, ctx=ast.Load())
+
+        return W().visit(e)
+
+    def _freshen(self, v: ast.AST, p: _Path) -> ast.AST:
+        """Every call of a non-deterministic primitive yields a value of its own: it is replaced by a fresh symbol (so
+        two evaluations are never mistaken for the same value, while copies of one evaluation stay equal)."""
+        if not self._impure(v):
+            return v
+        ex = self
+
+        class F(ast.NodeTransformer):
+            def visit_Call(self, n):
+                n = self.generic_visit(n)
+                d = dotted(n.func) or ""
+                if any(d == x or d.startswith(x) for x in _IMPURE):
+                    return ex._newsym(p, "r", n)
+                return n
+
+        return F().visit(v)
+
+    def _resolve(self, v: ast.AST, p: _Path, depth: int) -> List[Tuple[_Path, ast.AST]]:
+        v = self.simplify(v, p)
+        ife = _first_ifexp(v)
+        if ife is None or depth > 6:
+            return [(p, v)]
+        out = []
+        for p2, _t in self.decide_s(ife.test, p):
+            out.extend(self._resolve(copy.deepcopy(v), p2, depth + 1))
+        return out
+
+    def decide(self, test: ast.AST, p: _Path) -> List[Tuple[_Path, bool]]:
+        out = []
+        for p2, v in self.ev(test, p):
+            out.extend(self.decide_s(v, p2))
+        return out
+
+    def decide_s(self, e: ast.AST, p: _Path) -> List[Tuple[_Path, bool]]:
+        t = self.truth(e, p)
+        if t is not None:
+            return [(p, t)]
+        if isinstance(e, ast.UnaryOp) and isinstance(e.op, ast.Not):
+            return [(q, not b) for q, b in self.decide_s(e.operand, p)]
+        if isinstance(e, ast.BoolOp):
+            stop = isinstance(e.op, ast.Or)  # the value that ends evaluation
+            live, done = [p], []
+            for v in e.values:
+                nxt = []
+                for q in live:
+                    for q2, b in self.decide_s(v, q):
+                        (done if b is stop else nxt).append(q2)
+                live = nxt
+            return [(q, stop) for q in done] + [(q, not stop) for q in live]
+        a, b = p.copy(), p.copy()
+        a.add_fact(e, True)
+        b.add_fact(e, False)
+        return [(a, True), (b, False)]
+
+    # ------------------------------------------------------------------ statements
+    def run(self, stmts: List[ast.stmt], p: _Path) -> List[_Path]:
+        paths = [p]
+        for st in stmts:
+            nxt: List[_Path] = []
+            for q in paths:
+                if q.out != "next":
+                    nxt.append(q)
+                else:
+                    nxt.extend(self.step(st, q))
+            paths = nxt
+            if len(paths) > self.budget:
+                for q in paths:
+                    q.opaque.append("path budget exceeded")
+                return paths[: self.budget]
+        return paths
+
+    def _newsym(self, p: _Path, prefix: str, definition: ast.AST) -> ast.Name:
+        self.fresh += 1
+        n = f"%{prefix}{self.fresh}"
+        p.defs[n] = definition
+        return _name(n)
+
+    def _impure(self, v: ast.AST) -> bool:
+        for n in ast.walk(v):
+            if isinstance(n, ast.Call):
+                d = dotted(n.func) or ""
+                if any(d == x or d.startswith(x) for x in _IMPURE):
+                    return True
+        return False
+
+    def _alloc(self, v: ast.AST) -> bool:
+        if isinstance(v, (ast.List, ast.ListComp, ast.Dict, ast.DictComp)):
+            return True
+        if isinstance(v, ast.Subscript) and isinstance(v.slice, ast.Slice):
+            return True
+        return isinstance(v, ast.Call) and (dotted(v.func) in _ALLOC or (isinstance(v.func, ast.Attribute) and v.func.attr == "copy"))
+
+    def _bind_value(self, v: ast.AST, p: _Path) -> ast.AST:
+        if isinstance(v, ast.Name):
+            return v
+        if self.objects and self._alloc(v):
+            return self._newsym(p, "o", v)
+        return v
+
+    def _store(self, target: ast.AST, v: ast.AST, p: _Path):
+        if isinstance(target, (ast.Tuple, ast.List)):
+            if any(isinstance(t, ast.Starred) for t in target.elts):
+                p.opaque.append("starred unpacking")
+                for n in names_in(target):
+                    p.env[n] = self._newsym(p, "u", ast.Constant(value=None))
+                return
+            if isinstance(v, (ast.Tuple, ast.List)) and len(v.elts) == len(target.elts) and not any(isinstance(x, ast.Starred) for x in v.elts):
+                for t, x in zip(target.elts, v.elts):
+                    self._store(t, x, p)
+                return
+            for i, t in enumerate(target.elts):
+                self._store(t, ast.Subscript(value=copy.deepcopy(v), slice=ast.Constant(value=i), ctx=ast.Load()), p)
+            return
+        if isinstance(target, ast.Subscript):
+            for q, c in self.ev(target.value, p)[:1]:
+                k = self.ev(target.slice, p)[0][1]
+                self._mutate(c, "__setitem__", [k, v], p, dotted(target.value))
+            return
+        d = dotted(target)
+        if d is None:
+            p.opaque.append(f"store to {src(target)}")
+            return
+        p.env[d] = v
+        # a rebinding of `x` invalidates remembered `x.attr` entries
+        for k in [k for k in p.env if k.startswith(d + ".")]:
+            del p.env[k]
+
+    def _mutate(self, recv: ast.AST, meth: str, args: List[ast.AST], p: _Path, recv_name: Optional[str]):
+        p.muts.append((recv, meth, args))
+        if self.objects and isinstance(recv, ast.Name) and recv.id.startswith("%o"):
+            return  # object identity mode: the mutation is recorded against the object, bindings keep pointing at it
+        if meth == "update" and len(args) == 1 and isinstance(args[0], ast.Dict) and len(args[0].keys) == 1 and args[0].keys[0] is not None:
+            meth, args = "__setitem__", [args[0].keys[0], args[0].values[0]]
+        fn = "%setitem" if meth == "__setitem__" else f"%mut_{meth}"
+        new = ast.Call(func=_name(fn), args=[copy.deepcopy(recv)] + [copy.deepcopy(a) for a in args], keywords=[])
+        rs = src(recv)
+        keys = {k for k, v in p.env.items() if src(v) == rs}
+        if recv_name is not None:
+            keys.add(recv_name)
+        d = dotted(recv)
+        if d is not None and not d.startswith("%"):
+            keys.add(d)
+        for k in keys:
+            p.env[k] = new
+
+    def step(self, st: ast.stmt, p: _Path) -> List[_Path]:
+        if isinstance(st, (ast.Pass, ast.Import, ast.ImportFrom, ast.Global, ast.Nonlocal)):
+            return [p]
+        if isinstance(st, (ast.Assign, ast.AnnAssign, ast.AugAssign)):
+            if isinstance(st, ast.AnnAssign) and st.value is None:
+                return [p]
+            if isinstance(st, ast.AugAssign):
+                tl = copy.deepcopy(st.target)
+                for n in ast.walk(tl):
+                    if hasattr(n, "ctx"):
+                        n.ctx = ast.Load()
+                value: ast.AST = ast.BinOp(left=tl, op=st.op, right=st.value)
+                targets = [st.target]
+            else:
+                value = st.value
+                targets = st.targets if isinstance(st, ast.Assign) else [st.target]
+            out = []
+            for q, v in self.ev(value, p):
+                if q is p and len(out):
+                    q = p.copy()
+                if not isinstance(v, (ast.Tuple, ast.List)):
+                    v = self._bind_value(v, q)
+                for t in targets:
+                    self._store(t, v, q)
+                out.append(q)
+            return out
+        if isinstance(st, ast.Expr):
+            out = []
+            for q, v in self.ev(st.value, p):
+                if isinstance(v, ast.Call):
+                    if isinstance(v.func, ast.Attribute) and v.func.attr in _MUTATORS:
+                        orig = st.value.func.value if isinstance(st.value, ast.Call) and isinstance(st.value.func, ast.Attribute) else None
+                        self._mutate(v.func.value, v.func.attr, list(v.args), q, dotted(orig) if orig is not None else None)
+                    else:
+                        q.effects.append(v)
+                out.append(q)
+            return out
+        if isinstance(st, ast.Assert):
+            out = []
+            for q, t in self.decide(st.test, p):
+                if not t:
+                    q.out, q.val = "raise", _name("AssertionError")
+                out.append(q)
+            return out
+        if isinstance(st, ast.If):
+            out = []
+            for q, t in self.decide(st.test, p):
+                out.extend(self.run(st.body if t else st.orelse, q))
+            return out
+        if isinstance(st, ast.Raise):
+            q, v = self.ev(st.exc, p)[0]
+            q.out, q.val = "raise", v
+            return [q]
+        if isinstance(st, ast.Return):
+            out = []
+            for q, v in self.ev(st.value, p):
+                q.out, q.val = "return", v
+                out.append(q)
+            return out
+        if isinstance(st, ast.Continue):
+            p.out = "continue"
+            return [p]
+        if isinstance(st, ast.Break):
+            p.out = "break"
+            return [p]
+        # anything else (nested loops, try, with, match, del ...): not modelled
+        p.opaque.append(type(st).__name__)
+        for n in _assigned(st):
+            p.env[n] = self._newsym(p, "u", ast.Constant(value=None))
+        return [p]
 
 
-_TA = _RA = "data"
-_FLD = {}
+class _NCType:
+    pass
 
 
-def _accumulator(f, loop):
-    """The local that starts as b'' before the step loop: the payload accumulator."""
-    for st in statements(f.node):
-        if st is loop:
-            break
-        tg = st.targets[0] if isinstance(st, ast.Assign) and len(st.targets) == 1 else st.target if isinstance(st, ast.AnnAssign) else None
-        v = getattr(st, "value", None)
-        if isinstance(tg, ast.Name) and isinstance(v, ast.Constant) and v.value == b"":
-            return tg.id
+_NC = _NCType()
+
+
+def _cv(e):
+    """Constant value of e or the _NC marker."""
+    try:
+        return const_eval(e, _noenv)
+    except Exception:
+        return _NC
+
+
+def _first_ifexp(e: ast.AST) -> Optional[ast.IfExp]:
+    todo = [e]
+    while todo:
+        n = todo.pop(0)
+        if isinstance(n, ast.IfExp):
+            return n
+        if isinstance(n, (ast.Lambda, ast.ListComp, ast.SetComp, ast.DictComp, ast.GeneratorExp)):
+            continue
+        todo.extend(ast.iter_child_nodes(n))
     return None
 
 
-def _loop_over(f, attr):
-    for st in statements(f.node):
-        if isinstance(st, ast.For) and dotted(st.iter) == f"self.{attr}":
-            return st
-    return None
+def _assigned(node: ast.AST) -> set:
+    """Dotted names that statements inside `node` may rebind or mutate in place."""
+    out = set()
 
+    def tgt(t):
+        if isinstance(t, (ast.Tuple, ast.List)):
+            for x in t.elts:
+                tgt(x)
+        elif isinstance(t, ast.Starred):
+            tgt(t.value)
+        elif isinstance(t, ast.Subscript):
+            d = dotted(t.value)
+            if d:
+                out.add(d)
+        else:
+            d = dotted(t)
+            if d:
+                out.add(d)
 
-def _assigns(body, name):
-    out = []
-    for s in body:
-        for n in ast.walk(s):
-            if isinstance(n, ast.Assign) and any(dotted(t) == name for t in n.targets):
-                out.append(n.value)
-            elif isinstance(n, ast.AugAssign) and dotted(n.target) == name:
-                out.append(ast.BinOp(left=ast.Name(id=name, ctx=ast.Load()), op=n.op, right=n.value))
+    for n in ast.walk(node):
+        if isinstance(n, ast.Assign):
+            for t in n.targets:
+                tgt(t)
+        elif isinstance(n, (ast.AugAssign, ast.AnnAssign)):
+            if not (isinstance(n, ast.AnnAssign) and n.value is None):
+                tgt(n.target)
+        elif isinstance(n, (ast.For, ast.AsyncFor)):
+            tgt(n.target)
+        elif isinstance(n, ast.NamedExpr):
+            tgt(n.target)
+        elif isinstance(n, (ast.With, ast.AsyncWith)):
+            for it in n.items:
+                if it.optional_vars is not None:
+                    tgt(it.optional_vars)
+        elif isinstance(n, ast.Delete):
+            for t in n.targets:
+                tgt(t)
+        elif isinstance(n, ast.Call) and isinstance(n.func, ast.Attribute) and n.func.attr in _MUTATORS:
+            d = dotted(n.func.value)
+            if d:
+                out.add(d)
     return out
+
+
+def _merge(paths: List[_Path], ex: _Sym) -> Optional[_Path]:
+    """Join of the normally-completing paths of a prelude: differing values become fresh symbols, common facts are kept."""
+    if not paths:
+        return None
+    if len(paths) == 1:
+        return paths[0].copy()
+    m = paths[0].copy()
+    for k in list(m.env):
+        vals = [q.env.get(k) for q in paths]
+        if any(v is None for v in vals):
+            del m.env[k]
+        elif len({src(v) for v in vals}) > 1:
+            m.env[k] = ex._newsym(m, "phi", ast.Tuple(elts=[copy.deepcopy(v) for v in vals], ctx=ast.Load()))
+    m.facts = {k: v for k, v in m.facts.items() if all(q.facts.get(k) == v for q in paths)}
+    m.fnodes = [(e, t) for e, t in m.fnodes if _key(e)[0] in m.facts]
+    for q in paths[1:]:
+        m.defs.update(q.defs)
+        m.opaque.extend(x for x in q.opaque if x not in m.opaque)
+    return m
+
+
+# ============================================================================================ one dispatcher, summarised
+def _normal(paths: List[_Path]) -> List[_Path]:
+    return [p for p in paths if p.out in ("next", "continue")]
+
+
+def _raise_name(p: _Path) -> Optional[str]:
+    v = p.val
+    if v is None:
+        return None
+    return dotted(v.func) if isinstance(v, ast.Call) else dotted(v)
+
+
+class _Side:
+    """transform or recover: the step loop located by role, its prelude executed, per-step path summaries on demand."""
+
+    def __init__(self, ctx, f, attr: str):
+        self.ctx, self.f, self.attr = ctx, f, attr
+        self.ex = _Sym(ctx, f)
+        self.why: Optional[str] = None  # why the loop could not be located (None = located)
+        self.wrong_list: Optional[str] = None
+        self.loop: Optional[ast.For] = None
+        self.pre: Optional[_Path] = None
+        self.carried: set = set()
+        self.acc: Optional[str] = None
+        self._cache: Dict[Tuple[str, str], List[_Path]] = {}
+        self._post: Optional[List[_Path]] = None
+        self._locate()
+
+    # ------------------------------------------------------------------ locating
+    def _prelude(self, stmts) -> Optional[_Path]:
+        # the prelude is joined after every top-level statement: `if request is None: request = ...` yields one symbol
+        # for the request, and what follows is expressed over it
+        pre: Optional[_Path] = _Path()
+        for st in stmts:
+            pre = _merge([p for p in self.ex.run([st], pre) if p.out == "next"], self.ex)
+            if pre is None:
+                return None
+        return pre
+
+    def _locate(self):
+        body = self.f.node.body
+        cands = []
+        for i, st in enumerate(body):
+            if not isinstance(st, ast.For):
+                continue
+            pre = self._prelude(body[:i])
+            if pre is None:
+                continue
+            it = self.ex.ev(st.iter, pre)[0][1]  # the iterable with prelude temporaries resolved
+            attrs = {dotted(n) for n in ast.walk(it) if isinstance(n, ast.Attribute)}
+            if f"self.{self.attr}" in attrs:
+                cands.append((i, st, pre, it))
+            elif any(a and a.startswith("self.") and a.endswith("steps") for a in attrs) and not any(
+                    (isinstance(n, ast.Call) and dotted(n.func) == "reversed") or isinstance(n, ast.Slice) for n in ast.walk(it)):
+                self.wrong_list = sorted(a for a in attrs if a and a.startswith("self."))[0]
+        if len(cands) != 1:
+            self.why = f"no single top-level `for` over self.{self.attr} ({len(cands)} candidates)"
+            return
+        idx, self.loop, self.pre, it = cands[0]
+        elem = self._element(it)
+        if elem is None:
+            self.why = f"the loop iterates {src(it)}, not the step list itself"
+            return
+        self._elem = elem
+        self.carried = _assigned(ast.Module(body=self.loop.body, type_ignores=[])) | names_in(self.loop.target)
+        self.suffix = body[idx + 1:]
+
+    def _element(self, it: ast.AST) -> Optional[ast.AST]:
+        """Symbolic loop element for the iterable: (step, arg) pairs, possibly wrapped by enumerate/list/iter/tuple."""
+        pair = ast.Tuple(elts=[_name(_STEP), _name(_ARG)], ctx=ast.Load())
+        if dotted(it) == f"self.{self.attr}":
+            return pair
+        if isinstance(it, ast.Call) and len(it.args) >= 1 and not it.keywords:
+            d = dotted(it.func)
+            inner = self._element(it.args[0])
+            if inner is None:
+                return None
+            if d in ("list", "tuple", "iter") and len(it.args) == 1:
+                return inner
+            if d == "enumerate":
+                return ast.Tuple(elts=[_name("%index"), inner], ctx=ast.Load())
+        return None
+
+    # ------------------------------------------------------------------ running
+    def start(self, step: str, arg: Optional[ast.AST] = None) -> _Path:
+        p = self.pre.copy()
+        for n in self.carried:
+            p.env[n] = _name(n)
+            for k in [k for k in p.env if k.startswith(n + ".")]:
+                del p.env[k]
+        elem = copy.deepcopy(self._elem)
+        sub = {_STEP: ast.Constant(value=step)}
+        if arg is not None:
+            sub[_ARG] = arg
+        elem = _Subst(sub).visit(elem)
+        self.ex._store(self.loop.target, elem, p)
+        return p
+
+    def run(self, step: str, arg: Optional[ast.AST] = None) -> List[_Path]:
+        k = (step, src(arg) if arg is not None else "")
+        if k not in self._cache:
+            self._cache[k] = self.ex.run(self.loop.body, self.start(step, arg))
+        return self._cache[k]
+
+    def paths(self, name: str, arg: Optional[ast.AST] = None) -> List[_Path]:
+        """Paths for a step name in the spelling the binary parsers emit (upper-case enum names)."""
+        return self.run(name.upper(), arg)
+
+    def handles(self, spelled: str) -> bool:
+        return bool(_normal(self.run(spelled)))
+
+    def changed(self, p: _Path) -> Dict[str, ast.AST]:
+        """Loop-carried locals whose value at the end of the iteration differs from the value at its start."""
+        skip = names_in(self.loop.target)
+        return {n: p.env[n] for n in self.carried if n not in skip and n in p.env and src(p.env[n]) != n}
+
+    def post(self) -> List[_Path]:
+        """Paths of the code after the loop (loop-carried locals are symbols for their final value)."""
+        if self._post is None:
+            p = self.pre.copy()
+            for n in self.carried:
+                p.env[n] = _name(n)
+            self._post = self.ex.run(self.suffix, p)
+        return self._post
+
+    def literals(self) -> set:
+        """Lower-cased string literals the loop body compares something with (candidate step names)."""
+        out = set()
+        for n in ast.walk(ast.Module(body=self.loop.body, type_ignores=[])):
+            if isinstance(n, ast.Compare):
+                for e in [n.left] + list(n.comparators):
+                    for c in (e.elts if isinstance(e, (ast.Tuple, ast.List, ast.Set)) else [e]):
+                        if isinstance(c, ast.Constant) and isinstance(c.value, str):
+                            out.add(c.value.lower())
+            elif isinstance(n, ast.Dict):
+                for c in n.keys:
+                    if isinstance(c, ast.Constant) and isinstance(c.value, str):
+                        out.add(c.value.lower())
+        return out
+
+    def find_acc(self) -> Optional[str]:
+        """The payload accumulator by role: the loop-carried local the pure codec steps rewrite (ties: the one that starts empty)."""
+        score: Dict[str, int] = {}
+        for spell in (str.upper, str.lower):  # as the parsers emit them; failing that (no case normalisation) as written
+            for step in tables.INVERSE_PAIRS:
+                for p in _normal(self.run(spell(step))):
+                    for n in self.changed(p):
+                        score[n] = score.get(n, 0) + 1
+            if score:
+                break
+        if not score:
+            return None
+        best = max(score.values())
+        top = sorted(n for n, s in score.items() if s == best)
+        if len(top) > 1:
+            empty = [n for n in top if _cv(self.pre.env.get(n)) == b""]
+            top = empty or top
+        return top[0] if len(top) == 1 else None
+
+
+def _mentions(e: ast.AST, name: str) -> bool:
+    return any((isinstance(n, ast.Name) and n.id == name) for n in ast.walk(e))
+
+
+def _is(e: Optional[ast.AST], name: str) -> bool:
+    e = strip_cast(e) if e is not None else None
+    if isinstance(e, ast.Call) and dotted(e.func) == "bytes" and len(e.args) == 1 and not e.keywords:
+        e = e.args[0]
+    return isinstance(e, ast.Name) and e.id == name
 
 
 def _callee(ctx, f, call):
     if not isinstance(call, ast.Call):
         return None
     cal = ctx.rs.resolve_call(f, call)
-    if cal.kind == "func":
+    if cal.kind == "func" and cal.func is not None:
         return cal.func.fq
     if cal.kind == "external":
         return cal.fq
     return dotted(call.func)
 
 
+def _opaque(paths: List[_Path]) -> List[str]:
+    return sorted({x for p in paths for x in p.opaque})
+
+
+# ============================================================================================ the property's rules
+_FIELDS = ("uri", "params", "headers", "body")
+_BOGUS = "\x00no-such-step"
+_ST: Dict[str, object] = {}  # per-run state shared by the rule functions (roles located by run())
+
+
 def run(ctx):
     rep = ctx.rep
     rep.explanation = (
-        "Static cross-check of the sibling dispatchers HttpDataTransform.transform / .recover in c2.py: both if/elif chains "
-        "are turned into step-name -> branch tables; the tables must cover everything the binary parsers can emit, pair each "
-        "encoder with its reference decoder, write and read the same HTTP location, keep static decorations away from the "
-        "payload accumulator, mirror prepend/append sides (including an interval check for the `x[:-n]` zero hazard), use "
-        "one mask length, and bind build selectors to the like-named C2Data fields."
+        "Static cross-check of the sibling dispatchers HttpDataTransform.transform / .recover in c2.py: each loop body is "
+        "executed symbolically once per step name the binary parsers can emit (path forking on undecidable tests), giving "
+        "per step the final value of the payload accumulator and of the request fields.  These summaries must cover "
+        "everything the parsers emit, pair each encoder with its reference decoder, write and read the same HTTP "
+        "location, keep static decorations away from the payload, mirror prepend/append sides (including the `x[:-n]` "
+        "zero hazard), use one mask length, and bind build selectors to the like-named C2Data fields."
     )
     rep.not_decided = ["round-trip equality for all programs and payloads", "base64 padding repair", "uri_append recovering the whole URI (value-level)"]
     rep.trusted_base = ["CPython ast", "reference inverse-pair/placement tables in csverif/tables.py", "base64/urllib semantics"]
     T = ctx.repo.func("c2.HttpDataTransform.transform")
     R = ctx.repo.func("c2.HttpDataTransform.recover")
-    tl, rl = _loop_over(T, "tsteps"), _loop_over(R, "rsteps")
-    if tl is None or rl is None:
-        ctx.ob("R1", "AGREE", T, "step loops", False, "transform must iterate self.tsteps and recover self.rsteps")
+    tt, rt = _Side(ctx, T, "tsteps"), _Side(ctx, R, "rsteps")
+    bad = False
+    for side, f, s, attr in (("transform", T, tt, "tsteps"), ("recover", R, rt, "rsteps")):
+        if s.why is None:
+            continue
+        bad = True
+        if s.wrong_list is not None:
+            ctx.ob("R1", "AGREE", f, f"{side} step loop", False, f"{side} must iterate self.{attr} but iterates {s.wrong_list}")
+        else:
+            ctx.undecided("R1", "AGREE", f, f"{side} step loop", s.why)
+    if bad:
+        r7_init(ctx)
         return
-    tvar = dotted(tl.target.elts[0]) if isinstance(tl.target, ast.Tuple) else None
-    tval = dotted(tl.target.elts[1]) if isinstance(tl.target, ast.Tuple) else None
-    rvar = dotted(rl.target.elts[0]) if isinstance(rl.target, ast.Tuple) else None
-    rval = dotted(rl.target.elts[1]) if isinstance(rl.target, ast.Tuple) else None
-    global _TA, _RA, _FLD
-    _TA, _RA, _FLD = _accumulator(T, tl), _accumulator(R, rl), {}
-    for st in statements(T.node):
-        tg = st.targets[0] if isinstance(st, ast.Assign) and len(st.targets) == 1 else st.target if isinstance(st, ast.AnnAssign) else None
-        v = getattr(st, "value", None)
-        if isinstance(tg, ast.Name) and isinstance(v, ast.Attribute) and dotted(v.value) == "request" and v.attr in ("uri", "params", "headers", "body"):
-            _FLD[v.attr] = tg.id
-    if _TA is None or _RA is None:
-        ctx.ob("R1", "AGREE", T, "payload accumulator", False, "no local initialised to b'' before the step loop (the payload accumulator) in transform/recover")
+    for side, f, s in (("transform", T, tt), ("recover", R, rt)):
+        s.acc = s.find_acc()
+        if s.acc is None:
+            bad = True
+            ctx.undecided("R1", "AGREE", f, f"{side} payload accumulator", "no loop-carried local is rewritten by the codec steps: the payload accumulator cannot be located")
+    if bad:
+        r7_init(ctx)
         return
-    tt, telse = dispatch(T.node, tl, tvar)
-    rt, relse = dispatch(R.node, rl, rvar)
-    ctx.rep.count("transform_branches", len(tt), floor=14)
-    ctx.rep.count("recover_branches", len(rt), floor=14)
-    # names are lower-cased before dispatch on both sides
-    for f, loop, var in ((T, tl, tvar), (R, rl, rvar)):
-        low = any(isinstance(s, ast.Assign) and dotted(s.targets[0]) == var and isinstance(s.value, ast.Call) and isinstance(s.value.func, ast.Attribute)
-                  and s.value.func.attr == "lower" and dotted(s.value.func.value) == var for s in loop.body)
-        ctx.ob("R1", "AGREE", f, f"{var} = {var}.lower()", low, "step names are case-normalised before dispatch" if low else "step names are not lower-cased (parser emits upper-case enum names)")
-    r1(ctx, T, R, tt, rt, telse, relse)
+    _ST.clear()
+    _ST.update(fld=_fields(tt), c2=params(T.node)[1] if len(params(T.node)) > 1 else None, http=params(R.node)[1] if len(params(R.node)) > 1 else None)
+    vocab = {n.lower() for n in tables.TRANSFORM_STEPS} | tt.literals() | rt.literals()
+    _ST["vocab"] = vocab
+    ctx.rep.count("transform_branches", sum(1 for n in vocab if tt.handles(n.upper()) or tt.handles(n.lower())), floor=14)
+    ctx.rep.count("recover_branches", sum(1 for n in vocab if rt.handles(n.upper()) or rt.handles(n.lower())), floor=14)
+    # step names reach their branch in the spelling the parsers emit and in lower case alike
+    for side, f, s in (("transform", T, tt), ("recover", R, rt)):
+        diff = sorted(n for n in vocab if s.handles(n.upper()) != s.handles(n.lower()))
+        ctx.ob("R1", "AGREE", f, f"{side} case-insensitive step dispatch", not diff,
+               "step names are case-normalised before dispatch" if not diff else f"upper- and lower-case spellings are dispatched differently: {diff} (the parsers emit upper-case enum names)")
+    r1(ctx, T, R, tt, rt, tt.run(_BOGUS), rt.run(_BOGUS))
     r2(ctx, T, R, tt, rt)
-    r3(ctx, T, R, tt, rt, tval, rval)
-    r4(ctx, T, R, tt, rt, tval)
-    r5(ctx, T, R, tt, rt, tval, rval)
+    r3(ctx, T, R, tt, rt, _ARG, _ARG)
+    r4(ctx, T, R, tt, rt, _ARG)
+    r5(ctx, T, R, tt, rt, _ARG, _ARG)
     r6(ctx, T, R, tt, rt)
-    r7(ctx, T, R, tt, rt, tval, rval)
+    r7(ctx, T, R, tt, rt, _ARG, _ARG)
+
+
+def _fields(tt: _Side) -> dict:
+    """Locate, by role, the request object and the local that carries each request field through transform's loop:
+    the local returned under that field name (or, for the in-place mutated dict fields, the local bound to request.<field>)."""
+    out = {"req": None, "vars": {}, "ret": None, "why": None, "init": {}}
+    rets = [p for p in tt.post() if p.out == "return"]
+    if not rets or any(p.opaque for p in rets):
+        out["why"] = "the code after the step loop could not be followed to a return"
+        return out
+    shapes = {src(p.val) for p in rets}
+    if len(shapes) != 1 or not isinstance(rets[0].val, ast.Call):
+        out["why"] = f"transform returns {sorted(shapes)}: not one constructor/_replace call"
+        return out
+    call = rets[0].val
+    out["ret"] = call
+    kws = {k.arg: k.value for k in call.keywords if k.arg}
+    if isinstance(call.func, ast.Attribute) and call.func.attr == "_replace":
+        out["req"] = call.func.value
+    elif not (dotted(call.func) or "").endswith("HttpRequest"):
+        out["why"] = f"transform returns {src(call.func)}(...): neither request._replace nor HttpRequest"
+        return out
+    pre = tt.pre.env
+    for fld in _FIELDS:
+        v = kws.get(fld)
+        if isinstance(v, ast.Name) and v.id in tt.carried:
+            out["vars"][fld] = v.id
+        elif v is None and out["req"] is not None and fld in ("params", "headers"):
+            want = src(ast.Attribute(value=out["req"], attr=fld, ctx=ast.Load()))
+            c = [n for n in tt.carried if n in pre and src(pre[n]) == want]
+            if len(c) == 1:
+                out["vars"][fld] = c[0]
+    for fld, n in out["vars"].items():
+        iv = pre.get(n)
+        # a defensive copy of the initial field (dict(request.params), request.headers.copy()) still starts from that field
+        for _ in range(3):
+            if isinstance(iv, ast.Call) and dotted(iv.func) in ("dict", "bytes", "OrderedDict", "collections.OrderedDict") and len(iv.args) == 1 and not iv.keywords:
+                iv = iv.args[0]
+            elif isinstance(iv, ast.Call) and isinstance(iv.func, ast.Attribute) and iv.func.attr == "copy" and not iv.args:
+                iv = iv.func.value
+            else:
+                break
+        out["init"][fld] = iv
+        if out["req"] is None and isinstance(iv, ast.Attribute):
+            out["req"] = iv.value
+    return out
+
+
+def _lower_names(names) -> set:
+    return {n.lower() for n in names}
 
 
 def r1(ctx, T, R, tt, rt, telse, relse):
+    vocab = _ST.get("vocab") or _lower_names(tables.TRANSFORM_STEPS)
     emitted = {n.lower() for n in tables.TRANSFORM_STEPS if n not in tables.STEPS_EXEMPT} | {n.lower() for n in tables.RECOVER_STEPS}
-    ctx.ob("R1", "VOCAB", T, "transform vs recover step names", set(tt) == set(rt), f"only in transform: {sorted(set(tt) - set(rt))}; only in recover: {sorted(set(rt) - set(tt))}")
-    for side, f, tab in (("transform", T, tt), ("recover", R, rt)):
-        miss = sorted(emitted - set(tab))
+    ht = {n for n in vocab if tt.handles(n.upper())}
+    hr = {n for n in vocab if rt.handles(n.upper())}
+    ctx.ob("R1", "VOCAB", T, "transform vs recover step names", ht == hr, f"only in transform: {sorted(ht - hr)}; only in recover: {sorted(hr - ht)}")
+    for side, f, h in (("transform", T, ht), ("recover", R, hr)):
+        miss = sorted(emitted - h)
         ctx.ob("R1", "VOCAB", f, f"{side} covers parser output", not miss, f"step names the binary parsers can emit but {side} does not handle: {miss}")
     for side, f, eb in (("transform", T, telse), ("recover", R, relse)):
-        ok = bool(eb) and isinstance(eb[-1], ast.Raise) and raise_class(eb[-1]) == "ValueError"
-        ctx.ob("R1", "EXIT", f, f"{side} unknown step", ok, "unknown steps raise ValueError" if ok else "unknown steps are silently ignored or raise another type")
-    # each recover branch distinct from a decoration must not be shared with a decoding one
-    for name, (node, body) in rt.items():
-        pass
+        if not eb or _opaque(eb):
+            ctx.undecided("R1", "EXIT", f, f"{side} unknown step", f"the loop body could not be followed for an unknown step name ({_opaque(eb)})")
+            continue
+        ok = all(p.out == "raise" and _raise_name(p) == "ValueError" for p in eb)
+        ctx.ob("R1", "EXIT", f, f"{side} unknown step", ok,
+               "unknown steps raise ValueError" if ok else f"unknown steps are silently ignored or raise another type: {sorted({p.out + ' ' + (_raise_name(p) or '') for p in eb})}")
+
+
+# ---------------------------------------------------------------------------------------------------------------- R2
+def _acc_values(side: _Side, step: str):
+    """(distinct final accumulator values over the normally completing paths, opaque reasons); None if not handled."""
+    ps = _normal(side.paths(step))
+    if not ps:
+        return None, []
+    vals = {}
+    for p in ps:
+        v = p.env.get(side.acc)
+        if v is not None:
+            vals.setdefault(src(v), (v, p))
+    return list(vals.values()), _opaque(ps)
+
+
+def _layers(ctx, f, e: ast.AST, acc: str):
+    """Peel e down to the accumulator: [("case", m) | ("call", fq, n_extra_args) | ("pad", bytes)] from the outside in, or None."""
+    out = []
+    for _ in range(12):
+        e = strip_cast(e)
+        if _is(e, acc):
+            return out
+        if isinstance(e, ast.Call) and isinstance(e.func, ast.Attribute) and e.func.attr in ("lower", "upper") and not e.args and not e.keywords:
+            out.append(("case", e.func.attr))
+            e = e.func.value
+            continue
+        if isinstance(e, ast.BinOp) and isinstance(e.op, ast.Add) and isinstance(_cv(e.right), bytes):
+            out.append(("pad", _cv(e.right)))
+            e = e.left
+            continue
+        if isinstance(e, ast.Call):
+            cands = [a for a in list(e.args) + [k.value for k in e.keywords] if _mentions(a, acc)]
+            if len(cands) != 1:
+                return None
+            out.append(("call", _callee(ctx, f, e), e))
+            e = cands[0]
+            continue
+        return None
+    return None
 
 
 def r2(ctx, T, R, tt, rt):
+    codecs = {x for pair in tables.INVERSE_PAIRS.values() for x in pair}
     for step, (enc, dec) in tables.INVERSE_PAIRS.items():
         if step == "mask":
             continue
-        if step not in tt or step not in rt:
+        tv, topq = _acc_values(tt, step)
+        rv, ropq = _acc_values(rt, step)
+        if tv is None or rv is None:
+            continue  # not handled on one side: R1
+        text = f"pair {step}"
+        if topq or ropq or len(tv) != 1 or len(rv) != 1:
+            ctx.undecided("R2", "AGREE", T, text, f"no single accumulator value per side (transform {[s for s in map(lambda x: src(x[0]), tv)]}, recover {[src(x[0]) for x in rv]}; not modelled: {topq + ropq})")
             continue
-        from csverif.q import inline as _inl
-        tv = [_inl(T.node, v) for v in _assigns(tt[step][1], _TA)]
-        rv = [_inl(R.node, v) for v in _assigns(rt[step][1], _RA)]
-        ok = False
-        detail = f"transform data={[src(v) for v in tv]} recover data={[src(v) for v in rv]}"
-        if len(tv) == 1 and len(rv) == 1:
-            # strip case post-processing on the encoder side
-            te, post = tv[0], None
-            if isinstance(te, ast.Call) and isinstance(te.func, ast.Attribute) and te.func.attr in ("lower", "upper") and not te.args:
-                post, te = te.func.attr, te.func.value
-            re_, pre = rv[0], None
-            ra = re_.args[0] if isinstance(re_, ast.Call) and re_.args else None
-            if isinstance(ra, ast.Call) and isinstance(ra.func, ast.Attribute) and ra.func.attr in ("lower", "upper") and not ra.args:
-                pre, ra = ra.func.attr, ra.func.value
-            e_ok = _callee(ctx, T, te) == enc and isinstance(te, ast.Call) and te.args and dotted(te.args[0]) == _TA
-            d_ok = _callee(ctx, R, re_) == dec and ra is not None and _RA in names_in(ra)
-            case_ok = True
-            if step == "netbios":
-                case_ok = post == "lower" and pre == "upper"
-            elif step == "netbiosu":
-                case_ok = post in (None, "upper") and pre in (None, "upper")
+        te, re_ = tv[0][0], rv[0][0]
+        tl, rl = _layers(ctx, T, te, tt.acc), _layers(ctx, R, re_, rt.acc)
+        problems, unknown = [], []
+        for side, f, val, lay, want in (("transform", T, te, tl, enc), ("recover", R, re_, rl, dec)):
+            if lay is None:
+                seen = {_callee(ctx, f, n) for n in ast.walk(val) if isinstance(n, ast.Call)}
+                if want not in seen and (seen & codecs):
+                    problems.append(f"{side} uses {sorted(seen & codecs)} (required {want})")
+                else:
+                    unknown.append(f"{side} value {src(val)} is not a chain of codec call / case change / padding over the accumulator")
+                continue
+            calls = [l for l in lay if l[0] == "call"]
+            if len(calls) != 1:
+                if not calls:
+                    problems.append(f"{side} applies no codec: {src(val)}")
+                else:
+                    unknown.append(f"{side} applies several calls: {src(val)}")
+                continue
+            if calls[0][1] is None:
+                unknown.append(f"{side}: callee of {src(calls[0][2].func)} not resolved")
+                continue
+            if calls[0][1] != want:
+                problems.append(f"{side} calls {calls[0][1]} (required {want})")
+                continue
+            i = lay.index(calls[0])
+            outer, inner = lay[:i], lay[i + 1:]
+            if side == "transform":
+                case = next((l[1] for l in outer if l[0] == "case"), None)
+                if any(l[0] == "pad" for l in lay):
+                    problems.append("transform appends constant bytes around the encoder")
+                if any(l[0] == "case" for l in inner):
+                    problems.append("transform changes the case of the payload before encoding")
+                if step == "netbios" and case != "lower":
+                    problems.append(f"netbios must emit lower case (case handling after the encoder: {case})")
+                elif step == "netbiosu" and case not in (None, "upper"):
+                    problems.append(f"netbiosu must emit upper case (case handling after the encoder: {case})")
+                elif step.startswith("base64") and case is not None:
+                    problems.append(f"{step} output is case sensitive but is passed through .{case}()")
             else:
-                case_ok = post is None and pre is None
-            pad_ok = True
-            if step in ("base64", "base64url"):
-                # Cobalt Strike emits these without '=' padding: the decoder input must be data + b"==" (>= 2 pad bytes)
-                pad_ok = isinstance(ra, ast.BinOp) and isinstance(ra.op, ast.Add) and dotted(ra.left) == _RA and isinstance(_c(ra.right), bytes) and set(_c(ra.right)) == {0x3D} and len(_c(ra.right)) >= 2
-            ok = e_ok and d_ok and case_ok and pad_ok
-            detail = f"encoder {_callee(ctx, T, te)} (required {enc}) on data={e_ok}; decoder {_callee(ctx, R, re_)} (required {dec})={d_ok}; case handling post={post} pre={pre} ok={case_ok}; padding repaired before decoding={pad_ok}"
-        ctx.ob("R2", "AGREE", T, f"pair {step}", ok, detail, tt[step][0])
+                if outer:
+                    problems.append(f"recover post-processes the decoded payload: {[l[:2] for l in outer]}")
+                case = next((l[1] for l in inner if l[0] == "case"), None)
+                pads = [l[1] for l in inner if l[0] == "pad"]
+                if step == "netbios" and case != "upper":
+                    problems.append(f"netbios input is lower case and must be upper-cased before decoding (case handling: {case})")
+                elif step == "netbiosu" and case not in (None, "upper"):
+                    problems.append(f"netbiosu input must not be lower-cased (case handling: {case})")
+                elif step.startswith("base64"):
+                    if case is not None:
+                        problems.append(f"{step} input is case sensitive but is passed through .{case}()")
+                    # Cobalt Strike emits these without '=' padding: the decoder input must be data + b"==" (>= 2 pad bytes)
+                    if not pads:
+                        if _is(strip_cast([a for a in list(calls[0][2].args) + [k.value for k in calls[0][2].keywords] if _mentions(a, rt.acc)][0]), rt.acc):
+                            problems.append("padding is not repaired before decoding (Cobalt Strike strips '=')")
+                        else:
+                            unknown.append("padding repair not recognised")
+                    elif set(b"".join(pads)) != {0x3D} or len(b"".join(pads)) < 2:
+                        problems.append(f"padding repair appends {b''.join(pads)!r} (at least b'==' required)")
+                elif pads:
+                    problems.append(f"recover appends {pads} to the {step} input")
+        if problems:
+            ctx.ob("R2", "AGREE", T, text, False, "; ".join(problems) + f" [transform: {src(te)}; recover: {src(re_)}]")
+        elif unknown:
+            ctx.undecided("R2", "AGREE", T, text, "; ".join(unknown))
+        else:
+            ctx.ob("R2", "AGREE", T, text, True, f"transform: {src(te)} (encoder {enc}); recover: {src(re_)} (decoder {dec}); case handling and padding repair as required")
     # netbios codec offsets: default offset shared
     enc, dec = ctx.repo.func("utils.netbios_encode"), ctx.repo.func("utils.netbios_decode")
-    from csverif.astutil import param_defaults
     de, dd = _c(param_defaults(enc.node).get("offset")), _c(param_defaults(dec.node).get("offset"))
     ctx.ob("R2", "AGREE", enc, "netbios default offset", de == dd == 0x41, f"encoder default offset {de}, decoder {dd} (both 0x41 'A')")
 
 
+# ---------------------------------------------------------------------------------------------------------------- R3
+def _setitem(e: Optional[ast.AST]):
+    """(container, key, value) of a symbolic `%setitem(c, k, v)`."""
+    if isinstance(e, ast.Call) and dotted(e.func) == "%setitem" and len(e.args) == 3:
+        return e.args[0], e.args[1], e.args[2]
+    return None
+
+
+def _add_operands(e: ast.AST) -> List[ast.AST]:
+    if isinstance(e, ast.BinOp) and isinstance(e.op, ast.Add):
+        return _add_operands(e.left) + _add_operands(e.right)
+    return [e]
+
+
 def r3(ctx, T, R, tt, rt, tval, rval):
-    http = params(R.node)[1]
-    # transform locals bound from the request and returned under the same names
-    loc = {name: (name in _FLD) for name in ("uri", "params", "headers", "body")}
-    rets = [s for s in statements(T.node) if isinstance(s, ast.Return)]
-    ret_ok = False
-    if len(rets) == 1 and isinstance(rets[0].value, ast.Call) and isinstance(rets[0].value.func, ast.Attribute) and rets[0].value.func.attr == "_replace":
-        kws = {k.arg: dotted(k.value) for k in rets[0].value.keywords}
-        ret_ok = all(kws.get(n) == _FLD.get(n) for n in ("uri", "params", "headers", "body"))
-    ctx.ob("R3", "AGREE", T, "request fields", all(loc.values()) and ret_ok, f"locals initialised from the request {loc}; returned under their own names={ret_ok}")
-    want_t = {"print": ("body", None), "header": ("headers", tval), "parameter": ("params", tval), "uri_append": ("uri", None)}
-    for step, (fname, key) in want_t.items():
-        field = _FLD.get(fname, fname)
-        if step not in tt or step not in rt:
-            continue
-        node, body = tt[step]
-        ok_t = False
-        wrote = []
-        for s in body:
-            for n in ast.walk(s):
-                if isinstance(n, ast.Assign):
-                    t = n.targets[0]
-                    wrote.append(src(n))
-                    if key is None and dotted(t) == field and (dotted(n.value) == _TA or (step == "uri_append" and isinstance(n.value, ast.BinOp) and dotted(n.value.left) == field and dotted(n.value.right) == _TA)):
-                        ok_t = True
-                    if key is not None and isinstance(t, ast.Subscript) and dotted(t.value) == field and dotted(t.slice) == key and dotted(n.value) == _TA:
-                        ok_t = True
-                elif isinstance(n, ast.AugAssign) and step == "uri_append" and dotted(n.target) == field and isinstance(n.op, ast.Add) and dotted(n.value) == _TA:
-                    ok_t = True
-                    wrote.append(src(n))
-        rv = _assigns(rt[step][1], _RA)
-        ok_r = False
-        if len(rv) == 1:
-            v = rv[0]
-            if key is None:
-                ok_r = dotted(v) == f"{http}.{fname}"
+    fld = _ST.get("fld") or _fields(tt)
+    http = _ST.get("http") or params(R.node)[1]
+    fvars: Dict[str, str] = fld["vars"]
+    if fld["why"] is not None:
+        ctx.undecided("R3", "AGREE", T, "request fields", fld["why"])
+    else:
+        bad, unk = [], []
+        for name in _FIELDS:
+            n, iv = fvars.get(name), fld["init"].get(name)
+            if n is None:
+                kws = {k.arg: k.value for k in fld["ret"].keywords if k.arg}
+                if name in kws and any(isinstance(x, ast.Name) and x.id in tt.carried for x in ast.walk(kws[name])):
+                    unk.append(f"{name} is returned as {src(kws[name])}")
+                elif name in kws:
+                    bad.append(f"{name} is returned as {src(kws[name])}: nothing the steps write")
+                else:
+                    bad.append(f"the returned request does not carry the {name} the steps produced")
+                continue
+            if isinstance(iv, ast.Attribute) and iv.attr == name and (fld["req"] is None or src(iv.value) == src(fld["req"])):
+                continue
+            if isinstance(iv, ast.Attribute) and iv.attr in _FIELDS:
+                bad.append(f"the local returned as {name} starts as the request's {iv.attr}")
+            elif iv is None:
+                unk.append(f"initial value of the local returned as {name} not found")
+            elif _cv(iv) is not _NC:
+                bad.append(f"the local returned as {name} starts as {src(iv)}: the initial request's {name} is dropped")
             else:
-                ok_r = isinstance(v, ast.Subscript) and dotted(v.value) == f"{http}.{fname}" and dotted(v.slice) == rval
-        ctx.ob("R3", "AGREE", T, f"placement {step}", ok_t and ok_r,
-               f"transform writes the payload to {fname}{'[arg]' if key else ''}={ok_t} ({wrote}); recover reads {[src(x) for x in rv]} from the same place={ok_r}", node)
+                unk.append(f"the local returned as {name} starts as {src(iv)}")
+        if bad:
+            ctx.ob("R3", "AGREE", T, "request fields", False, "; ".join(bad + unk))
+        elif unk:
+            ctx.undecided("R3", "AGREE", T, "request fields", "; ".join(unk))
+        else:
+            ctx.ob("R3", "AGREE", T, "request fields", True, f"each field local starts as the initial request's field and is returned under its own name: {fvars}")
+    rev = {v: k for k, v in fvars.items()}
+    for step, fname in tables.PLACEMENTS.items():
+        keyed = fname in ("headers", "params")
+        tps, rps = _normal(tt.paths(step)), _normal(rt.paths(step))
+        if not tps or not rps:
+            continue
+        text = f"placement {step}"
+        problems, unknown = [], []
+        if _opaque(tps) or _opaque(rps):
+            unknown.append(f"not modelled: {_opaque(tps) + _opaque(rps)}")
+        # ---- transform: where does the payload go
+        target = fvars.get(fname)
+        if target is None:
+            unknown.append(f"the local carrying request.{fname} was not located")
+        for p in tps if target is not None else []:
+            if p.opaque:
+                continue  # not fully modelled: reported as undecided above, nothing is concluded from it
+            ch = tt.changed(p)
+            flows = sorted(rev[n] for n, v in ch.items() if n in rev and _mentions(v, tt.acc))
+            if fname not in flows:
+                problems.append(f"transform does not store the payload in {fname} (payload reaches {flows or 'no request field'})")
+                continue
+            if flows != [fname]:
+                problems.append(f"transform stores the payload in {flows}")
+            v = ch[target]
+            if keyed:
+                si = _setitem(v)
+                if si is None or not _is(si[0], target):
+                    unknown.append(f"transform updates {fname} as {src(v)}")
+                elif not _is(si[1], tval):
+                    problems.append(f"transform stores the payload under key {src(si[1])}, not under the step argument")
+                elif not _is(si[2], tt.acc):
+                    unknown.append(f"transform stores {src(si[2])}")
+            elif step == "uri_append":
+                ops = _add_operands(v)
+                if len(ops) == 2 and _is(ops[0], target) and _is(ops[1], tt.acc):
+                    pass
+                elif len(ops) == 2 and _is(ops[1], target) and _is(ops[0], tt.acc):
+                    problems.append("transform puts the payload in front of the URI")
+                elif _is(v, tt.acc):
+                    problems.append("transform replaces the URI by the payload instead of appending to it")
+                else:
+                    unknown.append(f"transform updates the URI as {src(v)}")
+            elif not _is(v, tt.acc):
+                unknown.append(f"transform sets {fname} to {src(v)}")
+        # ---- recover: where is it read from
+        for p in rps:
+            if p.opaque:
+                continue  # not fully modelled: reported as undecided above, nothing is concluded from it
+            v = p.env.get(rt.acc)
+            reads = sorted({n.attr for n in ast.walk(v) if isinstance(n, ast.Attribute) and dotted(n.value) == http})
+            if reads != [fname]:
+                problems.append(f"recover reads {['http.' + r for r in reads] or src(v)} (transform writes {fname})")
+                continue
+            v = strip_cast(v)
+            if keyed:
+                if not (isinstance(v, ast.Subscript) and dotted(v.value) == f"{http}.{fname}"):
+                    unknown.append(f"recover reads {src(v)}")
+                elif not _is(v.slice, rval):
+                    problems.append(f"recover reads key {src(v.slice)}, not the step argument")
+            elif dotted(v) != f"{http}.{fname}":
+                unknown.append(f"recover reads {src(v)}")
+        if problems:
+            ctx.ob("R3", "AGREE", T, text, False, "; ".join(sorted(set(problems + unknown))))
+        elif unknown:
+            ctx.undecided("R3", "AGREE", T, text, "; ".join(sorted(set(unknown))))
+        else:
+            ctx.ob("R3", "AGREE", T, text, True, f"transform writes the payload to {fname}{'[arg]' if keyed else ''}; recover reads it from the same place")
+
+
+# ---------------------------------------------------------------------------------------------------------------- R4
+def _split_part(e: ast.AST):
+    """(base, method, separator, maxsplit, index) of `base.method(sep[, maxsplit])[index]`."""
+    if isinstance(e, ast.Subscript) and isinstance(e.value, ast.Call) and isinstance(e.value.func, ast.Attribute) \
+            and e.value.func.attr in ("partition", "rpartition", "split", "rsplit") and e.value.args:
+        c = e.value
+        ms = _cv(c.args[1]) if len(c.args) > 1 else next((_cv(k.value) for k in c.keywords if k.arg == "maxsplit"), None)
+        return c.func.value, c.func.attr, _cv(c.args[0]), ms, _cv(e.slice)
+    return None
 
 
 def r4(ctx, T, R, tt, rt, tval):
+    fvars: Dict[str, str] = (_ST.get("fld") or _fields(tt))["vars"]
+    rev = {v: k for k, v in fvars.items()}
     for step, fname, sep in (("_header", "headers", b": "), ("_hostheader", "headers", b": "), ("_parameter", "params", b"=")):
-        field = _FLD.get(fname, fname)
-        if step not in tt:
-            ctx.ob("R4", "TAINT", T, f"decoration {step}", False, f"transform has no branch for {step}")
-            continue
-        node, body = tt[step]
-        reads_data = any(isinstance(n, ast.Name) and n.id == _TA and isinstance(n.ctx, ast.Load) for s in body for n in ast.walk(s))
-        shared_with = sorted(k for k, (n2, _b) in tt.items() if n2 is node and not k.startswith("_"))
-        wrote_ok = False
-        seps = []
-        for s in body:
-            for n in ast.walk(s):
-                if isinstance(n, ast.Assign) and isinstance(n.targets[0], ast.Subscript) and dotted(n.targets[0].value) == field:
-                    k, v = n.targets[0].slice, n.value
-                    ko, vo = origin(T.node, k), origin(T.node, v)
-                    wrote_ok = tval in names_in(_part_src(T.node, body, k)) and tval in names_in(_part_src(T.node, body, v))
-                if isinstance(n, ast.Call) and isinstance(n.func, ast.Attribute) and n.func.attr in ("partition", "split") and n.args:
-                    seps.append(_c(n.args[0]))
-        ok = not reads_data and not shared_with and wrote_ok and seps == [sep]
-        ctx.ob("R4", "TAINT", T, f"decoration {step}", ok,
-               f"static decoration: reads the payload accumulator={reads_data}; shares a branch with payload steps {shared_with}; writes {fname}[key]=value from its own argument={wrote_ok}; splits at {seps} (required [{sep!r}])", node)
-        if step in rt:
-            rnode, rbody = rt[step]
-            sets = bool(_assigns(rbody, _RA))
-            shared_r = sorted(k for k, (n2, _b) in rt.items() if n2 is rnode and not k.startswith("_"))
-            ctx.ob("R4", "TAINT", R, f"decoration {step}", not sets and not shared_r, f"recover must skip the decoration: assigns data={sets}; shares a branch with {shared_r}", rnode)
+        text = f"decoration {step}"
+        tps = _normal(tt.paths(step))
+        if not tps:
+            ctx.ob("R4", "TAINT", T, text, False, f"transform has no branch for {step}")
         else:
-            ctx.ob("R4", "TAINT", R, f"decoration {step}", False, f"recover has no branch for {step} (raises 'Unknown recover step')")
+            problems, unknown = [], []
+            if _opaque(tps):
+                unknown.append(f"not modelled: {_opaque(tps)}")
+            target = fvars.get(fname)
+            if target is None:
+                unknown.append(f"the local carrying request.{fname} was not located")
+            for p in tps:
+                if p.opaque:
+                    continue  # not fully modelled: reported as undecided above, nothing is concluded from it
+                ch = {n: v for n, v in tt.changed(p).items() if n in rev or n == tt.acc}
+                tainted = sorted(rev.get(n, "payload") for n, v in ch.items() if n != tt.acc and _mentions(v, tt.acc))
+                if tainted:
+                    problems.append(f"the static decoration writes the payload accumulator into {tainted}")
+                if tt.acc in ch:
+                    problems.append(f"the static decoration rewrites the payload accumulator: {src(ch[tt.acc])}")
+                if target is None:
+                    continue
+                others = sorted(rev[n] for n in ch if n in rev and n != target)
+                if target not in ch:
+                    problems.append(f"the decoration is not written to {fname}" + (f" but to {others}" if others else ""))
+                    continue
+                if others:
+                    problems.append(f"the decoration also changes {others}")
+                si = _setitem(ch[target])
+                if si is None or not _is(si[0], target):
+                    unknown.append(f"{fname} updated as {src(ch[target])}")
+                    continue
+                parts = []
+                for role, e, idx in (("name", si[1], 0), ("value", si[2], 2)):
+                    if not _mentions(e, tval):
+                        problems.append(f"the {role} {src(e)} is not taken from the step's own argument")
+                        continue
+                    sp = _split_part(e)
+                    if sp is None or not _is(sp[0], tval):
+                        unknown.append(f"{role} computed as {src(e)}")
+                        continue
+                    _b, meth, s, ms, i = sp
+                    parts.append(f"{role}={meth}({s!r})[{i}]")
+                    if s != sep:
+                        problems.append(f"{role} split at {s!r} (required {sep!r})")
+                    elif meth in ("rpartition", "rsplit"):
+                        problems.append(f"{role} split at the LAST {sep!r} ({meth}); the format splits at the first")
+                    elif meth == "partition":
+                        if i != idx:
+                            problems.append(f"{role} is part {i} of the partition (required {idx})")
+                    elif meth == "split":
+                        if ms != 1:
+                            problems.append(f"{role} uses split() without maxsplit=1: values containing {sep!r} are truncated")
+                        elif i != (0 if idx == 0 else 1):
+                            problems.append(f"{role} is element {i} of the split")
+            if problems:
+                ctx.ob("R4", "TAINT", T, text, False, "; ".join(sorted(set(problems + unknown))))
+            elif unknown:
+                ctx.undecided("R4", "TAINT", T, text, "; ".join(sorted(set(unknown))))
+            else:
+                ctx.ob("R4", "TAINT", T, text, True, f"static decoration: never touches the payload accumulator; writes {fname}[name] = value, both split from its own argument at the first {sep!r}")
+        rps = _normal(rt.paths(step))
+        if not rps:
+            ctx.ob("R4", "TAINT", R, text, False, f"recover has no branch for {step} (unknown-step error instead of skipping the decoration)")
+        elif _opaque(rps):
+            ctx.undecided("R4", "TAINT", R, text, f"not modelled: {_opaque(rps)}")
+        else:
+            sets = sorted({src(p.env[rt.acc]) for p in rps if src(p.env.get(rt.acc)) != rt.acc})
+            ctx.ob("R4", "TAINT", R, text, not sets, "recover skips the decoration" if not sets else f"recover must skip the decoration but replaces the payload by {sets}")
 
 
-def _part_src(fn, body, expr):
-    """expr plus the right-hand sides of the tuple-unpack that defines the names in it (within body)."""
-    names = names_in(expr)
-    mod = ast.Module(body=[], type_ignores=[])
-    extra = [expr]
-    for s in body:
-        for n in ast.walk(s):
-            if isinstance(n, ast.Assign) and isinstance(n.targets[0], ast.Tuple) and names & names_in(n.targets[0]):
-                extra.append(n.value)
-    return ast.Tuple(elts=extra, ctx=ast.Load())
+# ---------------------------------------------------------------------------------------------------------------- R5
+def _kind(p: _Path, arg: str) -> Optional[str]:
+    """Is the step argument known to be an int / bytes on this path?"""
+    for e, pol in p.fnodes:
+        if pol and isinstance(e, ast.Call) and dotted(e.func) == "isinstance" and len(e.args) == 2 and _is(e.args[0], arg):
+            tn = _tnames(e.args[1]) or set()
+            if tn == {"int"}:
+                return "int"
+            if tn and tn <= {"bytes", "bytearray"}:
+                return "bytes"
+    return None
+
+
+def _zero_state(p: _Path, n: ast.AST, arg: str) -> Optional[bool]:
+    """True: n is known non-zero on the path, False: known zero, None: unknown."""
+    cands = [n]
+    if isinstance(n, ast.Call) and dotted(n.func) == "len" and n.args:
+        cands.append(n.args[0])  # an empty bytes argument <=> length 0
+    for c in cands:
+        t = p.fact(c)
+        if t is not None:
+            return t
+    zero = ast.Constant(value=0)
+    t = p.fact(ast.Compare(left=n, ops=[ast.Eq()], comparators=[zero]))
+    if t is not None:
+        return not t
+    for op, k in ((ast.Gt(), zero), (ast.GtE(), ast.Constant(value=1))):
+        if p.fact(ast.Compare(left=n, ops=[op], comparators=[k])) is True:
+            return True
+    return None
+
+
+def _bound(e: Optional[ast.AST], acc: str, arg: str):
+    """Classify a slice bound: ("none"|"zero"|"N"|"-N"|"L-N"|"-N|None"|"L"|"?", the n expression)."""
+    if e is None or (isinstance(e, ast.Constant) and e.value is None):
+        return "none", None
+    if isinstance(e, ast.BoolOp) and isinstance(e.op, ast.Or) and len(e.values) == 2 and isinstance(e.values[1], ast.Constant) and e.values[1].value is None:
+        k, n = _bound(e.values[0], acc, arg)
+        return ("-N|None", n) if k == "-N" else ("?", None)
+    sp = sympoly(e)
+    if sp is None:
+        return "?", None
+    if sp.is_const():
+        return ("zero", None) if sp.const_value() == 0 else ("?", None)
+    la, ln = f"len({acc})", f"len({arg})"
+    natoms = [a for a in (arg, ln) if (a,) in sp.terms]
+    if len(natoms) != 1:
+        return ("L", None) if set(sp.terms) == {(la,)} and sp.terms[(la,)] == 1 else ("?", None)
+    a = natoms[0]
+    n = _name(arg) if a == arg else ast.Call(func=_name("len"), args=[_name(arg)], keywords=[])
+    rest = {k: v for k, v in sp.terms.items() if k != (a,)}
+    co = sp.terms[(a,)]
+    if not rest:
+        return ("N", n) if co == 1 else ("-N", n) if co == -1 else ("off", n)
+    if rest == {(la,): 1} and co == -1:
+        return "L-N", n
+    if set(rest) <= {(la,), ()} and rest.get((la,), 1) == 1:
+        return "off", n  # n (or len - n) shifted by a constant / scaled: a recognisably different number of bytes
+    return "?", None
 
 
 def r5(ctx, T, R, tt, rt, tval, rval):
-    # transform sides
-    for step, left, right in (("append", _TA, tval), ("prepend", tval, _TA)):
-        if step not in tt:
-            continue
-        vs = _assigns(tt[step][1], _TA)
-        ok = len(vs) == 1 and isinstance(vs[0], ast.BinOp) and isinstance(vs[0].op, ast.Add) and dotted(vs[0].left) == left and dotted(vs[0].right) == right
-        ctx.ob("R5", "AGREE", T, f"{step} side", ok, f"transform {step}: data = {[src(v) for v in vs]} (required {left} + {right})", tt[step][0])
-        # int filler: b"X" * n
-        fills = [v for v in _assigns(tt[step][1], tval)]
-        f_ok = all(isinstance(v, ast.BinOp) and isinstance(v.op, ast.Mult) and isinstance(_c(v.left), bytes) and len(_c(v.left)) == 1 and dotted(v.right) == tval for v in fills)
-        ctx.ob("R5", "AGREE", T, f"{step} int filler", f_ok, f"integer arguments become a filler of that many bytes: {[src(v) for v in fills]}", tt[step][0], nontrivial=False)
-    # recover slices
-    if "prepend" in rt:
-        vs = _assigns(rt["prepend"][1], _RA)
-        ok = len(vs) == 1 and isinstance(vs[0], ast.Subscript) and isinstance(vs[0].slice, ast.Slice) and dotted(vs[0].value) == _RA \
-            and dotted(vs[0].slice.lower) == rval and vs[0].slice.upper is None and vs[0].slice.step is None
-        ctx.ob("R5", "AGREE", R, "prepend slice", ok, f"recover prepend: data = {[src(v) for v in vs]} (required data[n:])", rt["prepend"][0])
-    if "append" in rt:
-        node, body = rt["append"]
-        vs = _assigns(body, _RA)
-        ok = False
-        detail = f"recover append: data = {[src(v) for v in vs]}"
-        if len(vs) == 1 and isinstance(vs[0], ast.Subscript) and isinstance(vs[0].slice, ast.Slice) and dotted(vs[0].value) == _RA:
-            sl = vs[0].slice
-            lo_ok = sl.lower is None or is_const(sl.lower, 0)
-            up = sl.upper
-            if lo_ok and sl.step is None and up is not None:
-                if isinstance(up, ast.UnaryOp) and isinstance(up.op, ast.USub):
-                    # x[:-n]: wrong for n == 0 unless n is proven >= 1 here
-                    it = absint.Interp(R.node, {})
-                    # interval of n: an int length (len(bytes) >= 0) - refine by dominating truthiness tests
-                    nonzero = guarded_by(ctx, R, vs[0] if False else body[-1], lambda t: True if dotted(t) == dotted(up.operand) else None)
-                    ok = bool(nonzero)
-                    detail = (f"recover append drops the last n bytes with data[:-{src(up.operand)}]; n has interval [0, +inf) (length of the "
-                              f"append argument, may be empty) and `data[:-0]` is the empty string, not data" + ("; guarded by a truthiness test" if ok else ""))
-                elif isinstance(up, ast.BinOp) and isinstance(up.op, ast.Sub) and isinstance(up.left, ast.Call) and dotted(up.left.func) == "len" and dotted(up.left.args[0]) == _RA and dotted(up.right) == rval:
-                    ok = True
-                    detail = f"recover append keeps data[:len(data) - n] - correct for n = 0"
-                else:
-                    detail += " - upper bound not recognised as 'all but the last n bytes'"
-        ctx.ob("R5", "ABS", R, "append slice", ok, detail, node)
-    # bytes arguments are measured
+    # ---- transform sides
     for step in ("append", "prepend"):
-        if step in rt:
-            conv = _assigns(rt[step][1], rval)
-            ok = all(isinstance(v, ast.Call) and dotted(v.func) == "len" and dotted(v.args[0]) == rval for v in conv) and bool(conv)
-            ctx.ob("R5", "AGREE", R, f"{step} len(arg)", ok, f"bytes arguments are replaced by their length: {[src(v) for v in conv]}", rt[step][0], nontrivial=False)
+        ps = _normal(tt.paths(step))
+        if not ps:
+            continue
+        problems, unknown, fills, fprob, funk = [], [], [], [], []
+        if _opaque(ps):
+            unknown.append(f"not modelled: {_opaque(ps)}")
+        for p in ps:
+            if p.opaque:
+                continue  # not fully modelled: reported as undecided above, nothing is concluded from it
+            v = p.env.get(tt.acc)
+            ops = _add_operands(v)
+            pos = [i for i, o in enumerate(ops) if _is(o, tt.acc)]
+            if _is(v, tt.acc):
+                problems.append("the payload is left unchanged")
+                continue
+            if len(pos) != 1 or len(ops) < 2:
+                unknown.append(f"payload becomes {src(v)}")
+                continue
+            want = 0 if step == "append" else len(ops) - 1
+            if pos[0] != want:
+                problems.append(f"payload becomes {src(v)}: the argument is added on the wrong side")
+            rest = [o for i, o in enumerate(ops) if i != pos[0]]
+            if len(rest) != 1:
+                unknown.append(f"payload becomes {src(v)}")
+                continue
+            x, kind = rest[0], _kind(p, tval)
+            if kind == "int":
+                fills.append(src(x))
+                x = strip_cast(x)
+                mult = [(a, b) for a, b in ((x.left, x.right), (x.right, x.left)) if isinstance(_cv(a), bytes)] if isinstance(x, ast.BinOp) and isinstance(x.op, ast.Mult) else []
+                if isinstance(x, ast.Name) and x.id == tval:
+                    fprob.append("an integer argument is concatenated to the payload as is")
+                elif isinstance(x, ast.Call) and dotted(x.func) in ("bytes", "bytearray") and len(x.args) == 1 and _is(x.args[0], tval):
+                    pass  # bytes(n): n filler bytes
+                elif mult and len(_cv(mult[0][0])) == 1 and _is(mult[0][1], tval):
+                    pass
+                elif mult and (len(_cv(mult[0][0])) != 1 or (sympoly(mult[0][1]) is not None and sympoly(mult[0][1]).atoms() == {tval})):
+                    fprob.append(f"an integer argument n becomes {src(x)}: not n filler bytes")
+                else:
+                    funk.append(f"integer argument becomes {src(x)}")
+            elif not _is(x, tval):
+                (problems if not _mentions(x, tval) else unknown).append(f"the bytes added are {src(x)}, not the step argument")
+        text = f"{step} side"
+        if problems:
+            ctx.ob("R5", "AGREE", T, text, False, "; ".join(sorted(set(problems + unknown))))
+        elif unknown:
+            ctx.undecided("R5", "AGREE", T, text, "; ".join(sorted(set(unknown))))
+        else:
+            ctx.ob("R5", "AGREE", T, text, True, f"transform {step}: {sorted({src(p.env[tt.acc]) for p in ps})}")
+        if fprob:
+            ctx.ob("R5", "AGREE", T, f"{step} int filler", False, "; ".join(sorted(set(fprob))), nontrivial=False)
+        elif funk:
+            ctx.undecided("R5", "AGREE", T, f"{step} int filler", "; ".join(sorted(set(funk))))
+        else:
+            ctx.ob("R5", "AGREE", T, f"{step} int filler", True, f"integer arguments become a filler of that many bytes: {fills}", nontrivial=False)
+    # ---- recover slices
+    for step in ("prepend", "append"):
+        ps = _normal(rt.paths(step))
+        if not ps:
+            continue
+        problems, unknown, notes, lprob = [], [], [], []
+        if _opaque(ps):
+            unknown.append(f"not modelled: {_opaque(ps)}")
+        bytes_paths = 0
+        for p in ps:
+            if p.opaque:
+                continue  # not fully modelled: reported as undecided above, nothing is concluded from it
+            v = strip_cast(p.env.get(rt.acc))
+            kind = _kind(p, rval)
+            bytes_paths += kind == "bytes"
+            nexpr = ast.Call(func=_name("len"), args=[_name(rval)], keywords=[]) if kind == "bytes" else _name(rval)
+            if _is(v, rt.acc):
+                if _zero_state(p, nexpr, rval) is False:
+                    notes.append("payload kept as is when n == 0")
+                else:
+                    problems.append(f"recover {step} leaves the payload unchanged")
+                continue
+            if not (isinstance(v, ast.Subscript) and isinstance(v.slice, ast.Slice) and _is(v.value, rt.acc)):
+                unknown.append(f"payload becomes {src(v)}: not a slice of the payload")
+                continue
+            if v.slice.step is not None and _cv(v.slice.step) != 1:
+                unknown.append(f"payload becomes {src(v)}")
+                continue
+            (lo, ln), (hi, hn) = _bound(v.slice.lower, rt.acc, rval), _bound(v.slice.upper, rt.acc, rval)
+            n = ln if ln is not None else hn
+            if n is not None and kind is not None:
+                if kind == "bytes" and not isinstance(n, ast.Call):
+                    lprob.append(f"a bytes argument is used as a slice bound without len(): {src(v)}")
+                if kind == "int" and isinstance(n, ast.Call):
+                    lprob.append(f"len() of an integer argument: {src(v)}")
+            shape = (lo if lo != "zero" else "none", hi if hi != "L" else "none")
+            if "?" in shape or (ln is not None and hn is not None):
+                unknown.append(f"payload becomes {src(v)}: slice bounds not recognised")
+            elif step == "prepend":
+                if shape == ("N", "none"):
+                    notes.append(src(v))
+                else:
+                    problems.append(f"recover prepend keeps {src(v)} (required: everything after the first n bytes, data[n:])")
+            else:
+                if shape in (("none", "L-N"), ("none", "-N|None")):
+                    notes.append(f"{src(v)} - correct for n = 0")
+                elif shape == ("none", "-N"):
+                    nz = _zero_state(p, n, rval)
+                    if nz is True:
+                        notes.append(f"{src(v)} guarded by a non-zero test")
+                    else:
+                        problems.append(f"recover append drops the last n bytes with {src(v)}; n may be 0 (empty append argument) and `data[:-0]` is the empty string, not data")
+                else:
+                    problems.append(f"recover append keeps {src(v)} (required: all but the last n bytes)")
+        text = f"{step} slice"
+        kindname = "ABS" if step == "append" else "AGREE"
+        if problems:
+            ctx.ob("R5", kindname, R, text, False, "; ".join(sorted(set(problems + unknown))))
+        elif unknown:
+            ctx.undecided("R5", kindname, R, text, "; ".join(sorted(set(unknown))))
+        else:
+            ctx.ob("R5", kindname, R, text, True, f"recover {step}: {sorted(set(notes))}")
+        # bytes arguments are measured
+        if lprob:
+            ctx.ob("R5", "AGREE", R, f"{step} len(arg)", False, "; ".join(sorted(set(lprob))), nontrivial=False)
+        elif not bytes_paths and _opaque(ps):
+            ctx.undecided("R5", "AGREE", R, f"{step} len(arg)", f"not modelled: {_opaque(ps)}")
+        elif not bytes_paths:
+            ctx.ob("R5", "AGREE", R, f"{step} len(arg)", False, "no path accepts a bytes argument (the profile parser passes the literal bytes)", nontrivial=False)
+        else:
+            ctx.ob("R5", "AGREE", R, f"{step} len(arg)", True, "bytes arguments are replaced by their length, integers used as they are", nontrivial=False)
+
+
+# ---------------------------------------------------------------------------------------------------------------- R6
+def _key_len(ctx, f, e: ast.AST, p: _Path):
+    """Length in bytes of a key expression: an int, "variable", or None (unknown producer)."""
+    if isinstance(e, ast.Name) and e.id in p.defs:
+        e = p.defs[e.id]
+    e = strip_cast(e)
+    v = _cv(e)
+    if isinstance(v, bytes):
+        return len(v)
+    if not isinstance(e, ast.Call):
+        return None
+    cal = ctx.rs.resolve_call(f, e)
+    if cal.kind == "func" and cal.func is not None and cal.func.fq == "utils.pack":
+        b = dict(bind_args(e, cal.func.node))
+        b.update(cal.bound)
+        s = b.get("size")
+        if s is None or (isinstance(s, ast.Constant) and s.value is None):
+            return "variable"
+        return _cv(s) if isinstance(_cv(s), int) else None
+    d = dotted(e.func) or ""
+    if d in ("os.urandom", "random.randbytes", "secrets.token_bytes") and e.args:
+        return _cv(e.args[0]) if isinstance(_cv(e.args[0]), int) else None
+    if isinstance(e.func, ast.Attribute) and e.func.attr == "to_bytes" and e.args:
+        a = e.args[1] if d == "int.to_bytes" and len(e.args) > 1 else e.args[0]
+        return _cv(a) if isinstance(_cv(a), int) else None
+    if d == "struct.pack" and e.args and isinstance(_cv(e.args[0]), str):
+        import struct as _s
+        try:
+            return _s.calcsize(_cv(e.args[0]))
+        except Exception:
+            return None
+    return None
+
+
+def _xor_args(ctx, f, e: ast.AST):
+    if not isinstance(e, ast.Call):
+        return None
+    cal = ctx.rs.resolve_call(f, e)
+    if cal.kind == "func" and cal.func is not None and cal.func.fq == "utils.xor":
+        b = bind_args(e, cal.func.node)
+        ps = params(cal.func.node)
+        if len(ps) >= 2 and b.get(ps[0]) is not None and b.get(ps[1]) is not None:
+            return b[ps[0]], b[ps[1]]
+    return None
 
 
 def r6(ctx, T, R, tt, rt):
-    if "mask" not in tt or "mask" not in rt:
+    tps, rps = _normal(tt.paths("mask")), _normal(rt.paths("mask"))
+    if not tps or not rps:
         return
-    node, body = tt["mask"]
-    size = None
-    mk_name = None
-    for s2 in body:
-        for n2 in ast.walk(s2):
-            if isinstance(n2, ast.Assign) and isinstance(n2.value, ast.Call) and isinstance(n2.targets[0], ast.Name):
-                cal = ctx.rs.resolve_call(T, n2.value)
-                if cal.kind == "func" and cal.func.fq == "utils.pack":
-                    size = _c(cal.bound.get("size"))
-                    mk_name = n2.targets[0].id
-    dv = _assigns(body, _TA)
-    t_ok = len(dv) == 1 and isinstance(dv[0], ast.BinOp) and isinstance(dv[0].op, ast.Add) and dotted(dv[0].left) == mk_name and isinstance(dv[0].right, ast.Call) \
-        and _callee(ctx, T, dv[0].right) == "utils.xor" and [dotted(a) for a in dv[0].right.args] == [_TA, mk_name]
-    rv = _assigns(rt["mask"][1], _RA)
-    r_ok, split = False, None
-    if len(rv) == 1 and isinstance(rv[0], ast.Call) and _callee(ctx, R, rv[0]) == "utils.xor" and len(rv[0].args) == 2:
-        a, b = rv[0].args
-        if isinstance(a, ast.Subscript) and isinstance(b, ast.Subscript) and isinstance(a.slice, ast.Slice) and isinstance(b.slice, ast.Slice) and dotted(a.value) == dotted(b.value) == _RA:
-            lo, hi = _c(a.slice.lower), _c(b.slice.upper)
-            r_ok = lo == hi and a.slice.upper is None and b.slice.lower is None
-            split = lo
-    ctx.ob("R6", "AGREE", T, "mask", t_ok and r_ok and size == split == 4,
-           f"transform prepends a {size}-byte key and XORs with it={t_ok}; recover splits at {split} and XORs tail with head={r_ok} (4 required on both sides)", node)
+    problems, unknown = [], []
+    if _opaque(tps) or _opaque(rps):
+        unknown.append(f"not modelled: {_opaque(tps) + _opaque(rps)}")
+    size = split = None
+    for p in tps:
+        if p.opaque:
+            continue  # not fully modelled: reported as undecided above, nothing is concluded from it
+        v = p.env.get(tt.acc)
+        ops = _add_operands(v)
+        xa = _xor_args(ctx, T, ops[1]) if len(ops) == 2 else None
+        if xa is None:
+            if len(ops) == 2 and _xor_args(ctx, T, ops[0]) is not None:
+                problems.append(f"transform emits {src(v)}: the key must precede the masked payload")
+            else:
+                unknown.append(f"transform emits {src(v)}: not key + xor(payload, key)")
+            continue
+        key, (xd, xk) = ops[0], xa
+        if not _is(xd, tt.acc):
+            problems.append(f"transform masks {src(xd)}, not the payload")
+        if src(xk) != src(key):
+            problems.append(f"transform prepends {src(key)} but masks with {src(xk)}")
+        size = _key_len(ctx, T, key, p)
+        kdef = src(p.defs.get(key.id)) if isinstance(key, ast.Name) and key.id in p.defs else src(key)
+        if size is None:
+            unknown.append(f"length of the key {kdef} not determined")
+        elif size != 4:
+            problems.append(f"the key {kdef} is {size} bytes long (the wire format has exactly 4 key bytes)")
+    for p in rps:
+        if p.opaque:
+            continue  # not fully modelled: reported as undecided above, nothing is concluded from it
+        v = p.env.get(rt.acc)
+        xa = _xor_args(ctx, R, v)
+        if xa is None:
+            unknown.append(f"recover computes {src(v)}: not xor(tail, head)")
+            continue
+
+        def sl(e):
+            if isinstance(e, ast.Subscript) and isinstance(e.slice, ast.Slice) and _is(e.value, rt.acc) and e.slice.step is None:
+                return e.slice.lower, e.slice.upper
+            return None
+
+        d, k = sl(xa[0]), sl(xa[1])
+        if d is None or k is None:
+            unknown.append(f"recover computes {src(v)}: operands are not slices of the payload")
+            continue
+        if d[1] is not None or not (k[0] is None or _cv(k[0]) == 0):
+            if d[0] is None and k[1] is None:
+                problems.append(f"recover computes {src(v)}: key and data halves are swapped")
+            else:
+                unknown.append(f"recover computes {src(v)}")
+            continue
+        lo, hi = _cv(d[0]), _cv(k[1])
+        if not isinstance(lo, int) or not isinstance(hi, int):
+            unknown.append(f"recover splits at {src(d[0])}/{src(k[1])}: not constants")
+            continue
+        split = lo
+        if lo != hi:
+            problems.append(f"recover takes the key from the first {hi} bytes but the data from offset {lo}")
+        elif lo != 4:
+            problems.append(f"recover splits the message at {lo} (the wire format has exactly 4 key bytes)")
+    if problems:
+        ctx.ob("R6", "AGREE", T, "mask", False, "; ".join(sorted(set(problems + unknown))))
+    elif unknown:
+        ctx.undecided("R6", "AGREE", T, "mask", "; ".join(sorted(set(unknown))))
+    else:
+        ctx.ob("R6", "AGREE", T, "mask", True, f"transform prepends a {size}-byte key and XORs the payload with it; recover splits at {split} and XORs tail with head")
+
+
+# ---------------------------------------------------------------------------------------------------------------- R7
+_SELECTORS = ("output", "id", "metadata")
+
+
+def _is_request(p: _Path, http: str) -> Optional[bool]:
+    """Is `http` known to be an HttpRequest (True) / known not to be one (False) on the path?"""
+    known = {}
+    for e, pol in p.fnodes:
+        if isinstance(e, ast.Call) and dotted(e.func) == "isinstance" and len(e.args) == 2 and dotted(e.args[0]) == http:
+            tn = _tnames(e.args[1])
+            if tn:
+                known[frozenset(x.split(".")[-1] for x in tn)] = pol
+    rq, rs_, both = frozenset({"HttpRequest"}), frozenset({"HttpResponse"}), frozenset({"HttpRequest", "HttpResponse"})
+    if rq in known:
+        return known[rq]
+    if known.get(rs_) is True:
+        return False
+    if known.get(rs_) is False and known.get(both) is True:
+        return True
+    return None
 
 
 def r7(ctx, T, R, tt, rt, tval, rval):
-    c2p = params(T.node)[1]
-    if "build" in tt:
-        node, body = tt["build"]
-        sel = {}
-        for s in ast.walk(ast.Module(body=body, type_ignores=[])):
-            if isinstance(s, ast.If):
-                for l, op, r in compare_parts(s.test):
-                    if isinstance(op, ast.Eq) and dotted(l) == tval and isinstance(_c(r), str):
-                        v = _assigns(s.body, _TA)
-                        if len(v) == 1:
-                            e = v[0].values[0] if isinstance(v[0], ast.BoolOp) else v[0]
-                            sel[_c(r)] = dotted(e)
-        want = {k: f"{c2p}.{k}" for k in ("output", "id", "metadata")}
-        ctx.ob("R7", "AGREE", T, "build selectors", sel == want, f"transform build reads {sel}; required {want}", node)
-    if "build" in rt:
-        node, body = rt["build"]
-        sel = {}
-        for s in ast.walk(ast.Module(body=body, type_ignores=[])):
-            if isinstance(s, ast.If):
-                for l, op, r in compare_parts(s.test):
-                    if isinstance(op, ast.Eq) and dotted(l) == rval and isinstance(_c(r), str):
-                        for n in s.body:
-                            if isinstance(n, ast.Assign) and dotted(n.value) == _RA:
-                                sel[_c(r)] = dotted(n.targets[0])
-        rets = [s for s in statements(R.node) if isinstance(s, ast.Return)]
-        r_ok = True
-        kinds = []
-        for r in rets:
-            c = r.value
-            if not isinstance(c, ast.Call):
-                r_ok = False
+    c2p = _ST.get("c2") or params(T.node)[1]
+    http = _ST.get("http") or params(R.node)[1]
+    if tt.handles("BUILD"):
+        sel, unknown = {}, []
+        for s in _SELECTORS:
+            ps = _normal(tt.paths("build", ast.Constant(value=s)))
+            if _opaque(ps):
+                unknown.append(f"not modelled: {_opaque(ps)}")
+            reads = set()
+            for p in ps:
+                if p.opaque:
+                    continue  # not fully modelled: reported as undecided above, nothing is concluded from it
+                v = p.env.get(tt.acc)
+                reads |= {n.attr for n in ast.walk(v) if isinstance(n, ast.Attribute) and dotted(n.value) == c2p}
+                if not _is(v, tt.acc) and not reads and _cv(v) is _NC:
+                    unknown.append(f"build {s}: payload becomes {src(v)}")
+            sel[s] = sorted(reads)
+        want = {k: [k] for k in _SELECTORS}
+        if sel != want and not unknown or any(v and v != [k] for k, v in sel.items()):
+            ctx.ob("R7", "AGREE", T, "build selectors", False, f"transform build reads {sel} of the C2Data argument; required {want}")
+        elif unknown:
+            ctx.undecided("R7", "AGREE", T, "build selectors", "; ".join(sorted(set(unknown))))
+        else:
+            ctx.ob("R7", "AGREE", T, "build selectors", True, f"transform build reads {sel}; required {want}")
+    if rt.handles("BUILD"):
+        store, problems, unknown = {}, [], []
+        for s in _SELECTORS:
+            ps = _normal(rt.paths("build", ast.Constant(value=s)))
+            if _opaque(ps):
+                unknown.append(f"not modelled: {_opaque(ps)}")
+            got = set()
+            for p in ps:
+                if p.opaque:
+                    continue  # not fully modelled: reported as undecided above, nothing is concluded from it
+                ch = rt.changed(p)
+                got |= {n for n, v in ch.items() if n != rt.acc and _is(v, rt.acc)}
+                if rt.acc in ch:
+                    problems.append(f"build {s} rewrites the payload: {src(ch[rt.acc])}")
+            if len(got) == 1:
+                store[s] = got.pop()
+            elif not got:
+                (unknown if _opaque(ps) else problems).append(f"build {s} does not keep the recovered payload")
+            else:
+                unknown.append(f"build {s} stores the payload in {sorted(got)}")
+        if len(set(store.values())) != len(store):
+            problems.append(f"two selectors share a store: {store}")
+        rets = [p for p in rt.post() if p.out == "return"]
+        if not rets or _opaque(rets):
+            unknown.append(f"the code after the loop could not be followed to a return ({_opaque(rets)})")
+        kinds = {}
+        for p in rets:
+            c = p.val
+            if not isinstance(c, ast.Call) or not dotted(c.func):
+                unknown.append(f"recover returns {src(c)}")
                 continue
-            kws = {k.arg: dotted(k.value) for k in c.keywords}
-            kinds.append(dotted(c.func))
-            for k in ("output", "id", "metadata"):
-                if kws.get(k) != sel.get(k):
-                    r_ok = False
-        # request -> ClientC2Data, response -> ServerC2Data
-        http = params(R.node)[1]
-        cli = [r for r in rets if isinstance(r.value, ast.Call) and dotted(r.value.func) == "ClientC2Data"]
-        g_ok = bool(cli) and all(guarded_by(ctx, R, r, lambda t: True if isinstance(t, ast.Call) and dotted(t.func) == "isinstance" and dotted(t.args[0]) == http and dotted(t.args[1]) == "HttpRequest" else None) for r in cli)
-        srv = [r for r in rets if isinstance(r.value, ast.Call) and dotted(r.value.func) == "ServerC2Data"]
-        ctx.ob("R7", "AGREE", R, "build selectors", set(sel) == {"output", "id", "metadata"} and len(set(sel.values())) == 3 and r_ok and g_ok and bool(srv),
-               f"recover build stores into {sel}; returned under the like-named fields={r_ok}; ClientC2Data only for requests={g_ok}; ServerC2Data otherwise={bool(srv)}", node)
-    # constructor ordering: rsteps is the reverse of tsteps (before optional swap/BUILD)
+            cls = dotted(c.func).split(".")[-1]
+            kws = {k.arg: k.value for k in c.keywords if k.arg}
+            if c.args or not kws:
+                unknown.append(f"recover returns {src(c)}: fields not passed by keyword")
+                continue
+            for s in _SELECTORS:
+                if s in store and not _is(kws.get(s), store[s]):
+                    problems.append(f"{cls}.{s} is given {src(kws.get(s))} but `build {s}` stored the payload in {store[s]}")
+            rq = _is_request(p, http)
+            kinds.setdefault(cls, []).append(rq)
+            if cls == "ClientC2Data" and rq is not True:
+                problems.append("ClientC2Data is returned without `http` being known to be an HttpRequest")
+            elif cls == "ServerC2Data" and rq is True:
+                problems.append("ServerC2Data is returned for an HttpRequest")
+            elif cls not in ("ClientC2Data", "ServerC2Data"):
+                unknown.append(f"recover returns a {cls}")
+        if rets and not unknown and "ServerC2Data" not in kinds:
+            problems.append("no path returns ServerC2Data (responses)")
+        if rets and not unknown and "ClientC2Data" not in kinds:
+            problems.append("no path returns ClientC2Data (requests)")
+        if problems:
+            ctx.ob("R7", "AGREE", R, "build selectors", False, "; ".join(sorted(set(problems + unknown))))
+        elif unknown:
+            ctx.undecided("R7", "AGREE", R, "build selectors", "; ".join(sorted(set(unknown))))
+        else:
+            ctx.ob("R7", "AGREE", R, "build selectors", True, f"recover build stores into {store}; returned under the like-named fields; ClientC2Data only for requests, ServerC2Data otherwise")
+    r7_init(ctx)
+
+
+def _orient(e: ast.AST, p: _Path, steps: str, depth: int = 0) -> Optional[int]:
+    """+1: a copy of / the `steps` argument in order, -1: in reverse order, None: unknown."""
+    if depth > 8:
+        return None
+    if isinstance(e, ast.Name) and e.id in p.defs:
+        return _orient(p.defs[e.id], p, steps, depth + 1)
+    e = strip_cast(e)
+    if isinstance(e, ast.Name):
+        return 1 if e.id == steps else None
+    if isinstance(e, ast.Subscript) and isinstance(e.slice, ast.Slice) and e.slice.lower is None and e.slice.upper is None:
+        st = _cv(e.slice.step) if e.slice.step is not None else 1
+        o = _orient(e.value, p, steps, depth + 1)
+        return None if o is None or st not in (1, -1) else o * st
+    if isinstance(e, ast.Call) and len(e.args) == 1 and not e.keywords:
+        d = dotted(e.func)
+        o = _orient(e.args[0], p, steps, depth + 1)
+        if o is None:
+            return None
+        if d in ("list", "tuple", "copy.copy", "copy.deepcopy", "iter"):
+            return o
+        if d == "reversed":
+            return -o
+    if isinstance(e, ast.Call) and isinstance(e.func, ast.Attribute) and e.func.attr == "copy" and not e.args:
+        return _orient(e.func.value, p, steps, depth + 1)
+    if isinstance(e, (ast.List, ast.Tuple)) and len(e.elts) == 1 and isinstance(e.elts[0], ast.Starred):
+        return _orient(e.elts[0].value, p, steps, depth + 1)
+    return None
+
+
+def r7_init(ctx):
+    """Constructor: rsteps is the reverse of tsteps (swapped by `reverse`), implicit BUILD first for transform, last for recover."""
     init = ctx.repo.func("c2.HttpDataTransform.__init__")
-    st = {dotted(s.targets[0] if isinstance(s, ast.Assign) else s.target): s.value for s in statements(init.node) if isinstance(s, (ast.Assign, ast.AnnAssign)) and not isinstance(getattr(s, "targets", [None])[0], ast.Tuple)}
-    rv = st.get("self.rsteps")
-    tv = st.get("self.tsteps")
-    p = params(init.node)[1]
+    ps_ = params(init.node)
+    steps = ps_[1] if len(ps_) > 1 else "steps"
+    pd = param_defaults(init.node)
+    flags = [n for n in ps_[2:] if isinstance(_cv(pd.get(n)), bool)]
+    opts = [n for n in ps_[2:] if n in pd and _cv(pd.get(n)) is None]
+    rev, build = (flags[0] if len(flags) == 1 else None), (opts[0] if len(opts) == 1 else None)
+    ex = _Sym(ctx, init, objects=True)
+    paths = [p for p in ex.run(init.node.body, _Path()) if p.out in ("next", "return")]
+    t1, t2 = "rsteps = reversed(tsteps)", "implicit BUILD"
+    if not paths or _opaque(paths) or rev is None or build is None:
+        why = f"constructor not understood (paths={len(paths)}, not modelled: {_opaque(paths)}, reverse flag={rev}, build option={build})"
+        ctx.undecided("R7", "AGREE", init, t1, why)
+        ctx.undecided("R7", "AGREE", init, t2, why)
+        return
+    problems, unknown, bprob, bunk, seen_build = [], [], [], [], 0
+    for p in paths:
+        tv, rv = p.env.get("self.tsteps"), p.env.get("self.rsteps")
+        if tv is None or rv is None:
+            problems.append("self.tsteps / self.rsteps is not assigned on every path")
+            continue
+        ot, orv = _orient(tv, p, steps), _orient(rv, p, steps)
+        r = p.fact(_name(rev))
+        desc = f"reverse={r}: tsteps={src(p.defs.get(src(tv), tv))} rsteps={src(p.defs.get(src(rv), rv))}"
+        if ot is None or orv is None:
+            unknown.append(desc)
+        elif ot == orv:
+            problems.append(f"{desc}: both lists have the same order")
+        elif r is None:
+            problems.append(f"{desc}: the reverse flag does not influence the order")
+        elif (ot == 1) == bool(r):
+            problems.append(f"{desc}: transform order must be the given order unless reverse is set")
+        # implicit BUILD
+        none = p.fact(ast.Compare(left=_name(build), ops=[ast.Is()], comparators=[ast.Constant(value=None)]))
+        if none is None:
+            t = p.fact(_name(build))
+            none = None if t is None else (not t)
+        muts = [(src(rc), m, a) for rc, m, a in p.muts]
+        if none is True:
+            if muts:
+                bprob.append(f"steps are modified although no build option was given: {[(r0, m) for r0, m, _a in muts]}")
+            continue
+        seen_build += 1
+        tm = [(m, a) for r0, m, a in muts if r0 == src(tv)]
+        rm = [(m, a) for r0, m, a in muts if r0 == src(rv)]
+        if src(tv) == src(rv):
+            bprob.append("tsteps and rsteps are the same list object")
+            continue
 
-    def rev_of(v):
-        v = v.args[0] if isinstance(v, ast.Call) and dotted(v.func) == "list" and v.args else v
-        if isinstance(v, ast.Subscript) and isinstance(v.slice, ast.Slice) and _c(v.slice.step) == -1 and v.slice.lower is None and v.slice.upper is None:
-            return names_in(v.value)
-        if isinstance(v, ast.Call) and dotted(v.func) == "reversed":
-            return names_in(v.args[0])
-        return set()
+        def pos(ms):
+            if len(ms) != 1:
+                return None, None
+            m, a = ms[0]
+            if m == "insert" and len(a) == 2:
+                i = _cv(a[0])
+                return ("first" if i == 0 else f"index {src(a[0])}"), a[1]
+            if m == "append" and len(a) == 1:
+                return "last", a[0]
+            return None, None
 
-    ok = rv is not None and tv is not None and p in rev_of(rv) and p in names_in(tv) and not rev_of(tv)
-    ctx.ob("R7", "AGREE", init, "rsteps = reversed(tsteps)", ok, f"tsteps={src(tv)} rsteps={src(rv)}: recover order is the reverse of the transform order={ok}")
-    ins = [c for c in fn_calls(init.node) if isinstance(c.func, ast.Attribute) and c.func.attr in ("insert", "append")]
-    shape = sorted((dotted(c.func), src(c.args[0]) if c.func.attr == "insert" else "end") for c in ins)
-    ctx.ob("R7", "AGREE", init, "implicit BUILD", shape == [("self.rsteps.append", "end"), ("self.tsteps.insert", "0")], f"implicit build step is first for transform and last for recover: {shape}")
+        (tp, tb), (rp, rb) = pos(tm), pos(rm)
+        if tp is None or rp is None:
+            if not tm and not rm and not muts:
+                bprob.append("the build option adds no BUILD step")
+            elif (not tm or not rm) and len(muts) >= 1 and all(r0 in (src(tv), src(rv)) for r0, _m, _a in muts):
+                bprob.append(f"the BUILD step is added to only one of the lists: tsteps {[m for m, _ in tm]}, rsteps {[m for m, _ in rm]}")
+            else:
+                bunk.append(f"list updates {[(r0, m) for r0, m, _a in muts]}")
+            continue
+        if tp != "first" or rp != "last":
+            bprob.append(f"implicit build step is {tp} for transform and {rp} for recover (required first / last)")
+        for b in (tb, rb):
+            e = p.defs.get(src(b), b)
+            if not (isinstance(e, ast.Tuple) and len(e.elts) == 2 and isinstance(_cv(e.elts[0]), str) and _cv(e.elts[0]).lower() == "build" and _is(e.elts[1], build)):
+                bprob.append(f"the implicit step is {src(e)}, not ('BUILD', {build})")
+    for text, pr, un, okmsg in ((t1, problems, unknown, "recover order is the reverse of the transform order; `reverse` swaps them"),
+                                (t2, bprob, bunk, "implicit build step is first for transform and last for recover")):
+        if pr:
+            ctx.ob("R7", "AGREE", init, text, False, "; ".join(sorted(set(pr + un))))
+        elif un or (text == t2 and not seen_build):
+            ctx.undecided("R7", "AGREE", init, text, "; ".join(sorted(set(un))) or "no path with a build option found")
+        else:
+            ctx.ob("R7", "AGREE", init, text, True, okmsg)
